@@ -1,24 +1,31 @@
 /-
   C06, output level: the `<em>` / `<strong>` STRUCTURE OF THE OUTPUT is the specification's.
 
-  Props/C06.lean (`C06_emphasis_is_spec_partial`) says that the MATCHES `find_core_tokens` returns are, one for one, the
-  emphasis nodes of the CommonMark 0.30 delimiter algorithm (`Spec/Emphasis.lean`).  This file proves the remaining step,
-  from the matches to the output string:
+  Props/C06.lean (`C06_emphasis_is_spec_partial`, `C06_emphasis_is_spec_esc_partial`) says that the MATCHES
+  `find_core_tokens` returns are, one for one, the emphasis nodes of the CommonMark 0.30 delimiter algorithm
+  (`Spec/Emphasis.lean`, `Spec/EmphasisEsc.lean`).  This file proves the remaining step, from the matches to the output
+  string:
 
     A. the span resolver (`Span.tokenize`: `find_tokens` ordering, `eval_tokens`, `eval_new_child`, `append_child`) on a
        LAMINAR family of candidates - pairwise disjoint, or one inside the parse group of the other - drops nothing: the
        forest it hands to `make_tokens` holds every candidate (`resolve_nodes`); with the tiling theorems of
        Proofs/Span.lean this determines the forest;
     B. SPECIFICATION of the HTML of an inline text from its spans, position by position (`Spec.EmphasisHtml.specHtmlQ`,
-       `specHtml`): independent of the model of the resolver, the token builder and the renderer;
+       `specHtml`; with backslash escapes `specHtmlEscQ`, `specHtmlEsc`): independent of the model of the resolver, the
+       token builder and the renderer;
     C. `make_tokens`, the token constructors (`Inline.build`) and `HtmlRenderer.render_inner` (`Html.renderInlines`) on such
        a forest produce exactly that string (`render_make` / `render_rev` / `render_before`, by induction over the forest:
-       arbitrary nesting);
-    D. the candidates of a text of the C06 alphabet are its emphasis matches and nothing else;
-    E. `emph_html_is_spec` (inline level, every covered token list, every definitions table, every quote option) and
-       `C06_paragraph_html_is_spec_partial` (`Document` + `HtmlRenderer` on a one-line paragraph).
+       arbitrary nesting; the nodes are `Emphasis` / `Strong` tokens and `EscapeSequence` leaves);
+    D. the candidates of a text of the C06 alphabet without backslash are its emphasis matches and nothing else;
+    E. - G. with backslashes: no delimiter character of a specification node is escaped (`emphasisEsc_unescaped`, an
+       invariant of *process emphasis*); `EscapeSequence.find` returns exactly the escaping backslashes of the specification
+       (`escPos_marks`, `findIter_escape`); emphasis matches and escape sequences together form a laminar family;
+    H. - J. the theorems: `emph_html_is_spec`, `emph_html_is_spec_esc` (inline level: every covered token list, every
+       definitions table, every quote option), `C06_paragraph_html_is_spec_partial`,
+       `C06_paragraph_html_is_spec_esc_partial` (`Document` + `HtmlRenderer` on a one-line paragraph).
 
-  Stage reached: (c) arbitrary nesting, for texts without backslash.  Not done: backslash escapes (`plainEsc`).
+  Stage reached: (c) arbitrary nesting, without and with backslash escapes.  Added hypotheses (both inside `plain`): no
+  newline, no `~~` (see the examples at the end).
 -/
 import Mistletoe.Props.C06
 import Mistletoe.Props.C14
@@ -203,7 +210,8 @@ end Mistletoe.EmphHtml
   The text is walked position by position.  At position `i` the output has
     * the opening tag (`<em>` / `<strong>`) of the span that starts at `i`, if there is one;
     * nothing for the character itself if `i` lies in the opening delimiter `[start, text start)` or in the closing
-      delimiter `[text end, stop)` of some span; otherwise the character, escaped;
+      delimiter `[text end, stop)` of some span, or if the character is a backslash that escapes the next character
+      (`skip i`; never, in a text without backslash); otherwise the character, escaped;
     * the closing tag of the span whose last character is at `i` (`stop = i + 1`), if there is one.
   (Spans have non-empty delimiters and nest, so at most one span starts, and at most one stops, at a position.) -/
 
@@ -221,9 +229,9 @@ def isDelimPos (L : List Span5) (i : Nat) : Bool :=
   L.any (fun p => (decide (p.1 ≤ i) && decide (i < p.2.1)) || (decide (p.2.2.1 ≤ i) && decide (i < p.2.2.2.1)))
 
 /-- the output for position `i` of the text -/
-def emitAt (esc : Char → Str) (L : List Span5) (s : Str) (i : Nat) : Str :=
+def emitAt (esc : Char → Str) (L : List Span5) (skip : Nat → Bool) (s : Str) (i : Nat) : Str :=
   (match L.find? (fun p => p.1 == i) with | some p => openTag p.2.2.2.2 | none => []) ++
-  (if isDelimPos L i then [] else match s[i]? with | some c => esc c | none => []) ++
+  (if isDelimPos L i || skip i then [] else match s[i]? with | some c => esc c | none => []) ++
   (match L.find? (fun p => p.2.2.2.1 == i + 1) with | some p => closeTag p.2.2.2.2 | none => [])
 
 /-- `f a ++ f (a + 1) ++ … ++ f (a + n - 1)` -/
@@ -231,8 +239,8 @@ def cat (f : Nat → Str) : Nat → Nat → Str
   | _, 0 => []
   | a, n + 1 => f a ++ cat f (a + 1) n
 
-/-- the HTML of the text `s` whose emphasis spans are `L` -/
-def htmlOf (esc : Char → Str) (L : List Span5) (s : Str) : Str := cat (emitAt esc L s) 0 s.length
+/-- the HTML of the text `s` whose emphasis spans are `L` and whose escaping backslashes are at the positions `skip` -/
+def htmlOf (esc : Char → Str) (L : List Span5) (skip : Nat → Bool) (s : Str) : Str := cat (emitAt esc L skip s) 0 s.length
 
 /-- `HtmlRenderer.escape_html_text` of one character (`html.escape(c, quote=False)` plus the two quote options);
     a per-character table regenerated from the working tree (Model/Escape.lean) -/
@@ -240,10 +248,19 @@ def escChar (dq sq : Bool) (c : Char) : Str := escapeHtmlText dq sq [c]
 
 /-- **the specification's HTML of a plain inline text** (no backslash, backquote, brackets, `<`, `&`): the spans are
     those of the CommonMark 0.30 delimiter algorithm (`Spec.Emphasis.spans`) -/
-def specHtmlQ (dq sq : Bool) (s : Str) : Str := htmlOf (escChar dq sq) (Emphasis.spans s) s
+def specHtmlQ (dq sq : Bool) (s : Str) : Str := htmlOf (escChar dq sq) (Emphasis.spans s) (fun _ => false) s
 
 /-- … under the renderer's default options (quotes are not escaped) -/
 def specHtml (s : Str) : Str := specHtmlQ false false s
+
+/-- **… with backslash escapes** (`plainEsc`: backslashes allowed): the spans are those of `Spec.EmphasisEsc.spansEsc`
+    (delimiter runs made of unescaped `*` / `_` only); a backslash before an escaped character (`escapedAt`, section 2.4:
+    an ASCII punctuation character after a backslash that is not itself escaped) is dropped, the escaped character
+    stays as text; every other backslash is literal -/
+def specHtmlEscQ (dq sq : Bool) (s : Str) : Str :=
+  htmlOf (escChar dq sq) (EmphasisEsc.spansEsc s) (fun i => EmphasisEsc.escapedAt s (i + 1)) s
+
+def specHtmlEsc (s : Str) : Str := specHtmlEscQ false false s
 
 /-- the examples of section 6.2 quoted in the task, against the expected HTML of the CommonMark dingus -/
 example : specHtml "***a** b*".toList = "<em><strong>a</strong> b</em>".toList := by decide +kernel
@@ -252,6 +269,13 @@ example : specHtml "_a*b_*".toList = "<em>a*b</em>*".toList := by decide +kernel
 example : specHtml "**a*".toList = "*<em>a</em>".toList := by decide +kernel
 example : specHtml "*a > \"b\"* 'c'".toList = "<em>a &gt; \"b\"</em> 'c'".toList := by decide +kernel
 example : specHtmlQ true false "*a > \"b\"* 'c'".toList = "<em>a &gt; &quot;b&quot;</em> 'c'".toList := by decide +kernel
+
+/-- examples 14, 15, 436, 439 of the 0.30 test suite, `\\a` (literal backslash), and a final backslash -/
+example : specHtmlEsc "\\*not emphasized*".toList = "*not emphasized*".toList := by decide +kernel
+example : specHtmlEsc "\\\\*emphasis*".toList = "\\<em>emphasis</em>".toList := by decide +kernel
+example : specHtmlEsc "foo *\\**".toList = "foo <em>*</em>".toList := by decide +kernel
+example : specHtmlEsc "foo **\\***".toList = "foo <strong>*</strong>".toList := by decide +kernel
+example : specHtmlEsc "\\a*b\\>*\\".toList = "\\a<em>b&gt;</em>\\".toList := by decide +kernel
 
 end Mistletoe.Spec.EmphasisHtml
 
@@ -353,9 +377,9 @@ structure Ctx (L : List Span5) : Prop where
   lam : ∀ p ∈ L, ∀ p' ∈ L, p = p' ∨ p.2.2.2.1 ≤ p'.1 ∨ p'.2.2.2.1 ≤ p.1 ∨
     (p'.2.1 ≤ p.1 ∧ p.2.2.2.1 ≤ p'.2.2.1) ∨ (p.2.1 ≤ p'.1 ∧ p'.2.2.2.1 ≤ p.2.2.1)
 
-theorem emit_quiet (esc : Char → Str) (L : List Span5) (s : Str) (hC : Ctx L) (i : Nat)
+theorem emit_quiet (esc : Char → Str) (L : List Span5) (skip : Nat → Bool) (s : Str) (hC : Ctx L) (i : Nat)
     (hq : ∀ p ∈ L, Quiet p i (i + 1)) :
-    emitAt esc L s i = match s[i]? with | some c => esc c | none => [] := by
+    emitAt esc L skip s i = if skip i then [] else match s[i]? with | some c => esc c | none => [] := by
   have h1 : L.find? (fun p => p.1 == i) = none := by
     rw [List.find?_eq_none]
     intro p hp
@@ -379,9 +403,9 @@ theorem emit_quiet (esc : Char → Str) (L : List Span5) (s : Str) (hC : Ctx L) 
   rw [h1, h2, h3]
   simp
 
-theorem emit_delim (esc : Char → Str) (L : List Span5) (s : Str) (hC : Ctx L) (i : Nat) (p : Span5) (hp : p ∈ L)
+theorem emit_delim (esc : Char → Str) (L : List Span5) (skip : Nat → Bool) (s : Str) (hC : Ctx L) (i : Nat) (p : Span5) (hp : p ∈ L)
     (hi : (p.1 ≤ i ∧ i < p.2.1) ∨ (p.2.2.1 ≤ i ∧ i < p.2.2.2.1)) :
-    emitAt esc L s i = (if i = p.1 then openTag p.2.2.2.2 else []) ++ (if i + 1 = p.2.2.2.1 then closeTag p.2.2.2.2 else []) := by
+    emitAt esc L skip s i = (if i = p.1 then openTag p.2.2.2.2 else []) ++ (if i + 1 = p.2.2.2.1 then closeTag p.2.2.2.2 else []) := by
   have wp := hC.wf p hp
   have h1 : (match L.find? (fun p => p.1 == i) with | some p => openTag p.2.2.2.2 | none => []) =
       if i = p.1 then openTag p.2.2.2.2 else [] := by
@@ -460,7 +484,7 @@ end
 /-! ### rendering -/
 
 section
-variable (q : Quotes) (s : Str) (found : List Found) (L : List Span5)
+variable (q : Quotes) (s : Str) (found : List Found) (L : List Span5) (skip : Nat → Bool)
 
 /-- the HTML of a list of resolved tokens -/
 def R (os : List Out) : Str := flat (renderInlines q (builds s found os))
@@ -475,21 +499,32 @@ theorem R_append (a b : List Out) : R q s found (a ++ b) = R q s found a ++ R q 
 
 theorem R_nil : R q s found [] = [] := rfl
 
-/-- the token built from the candidate `c` is the `Emphasis` / `Strong` of a span of the specification -/
+/-- the token built from the candidate `c` is the `Emphasis` / `Strong` of a span of the specification, or the
+    `EscapeSequence` of an escaping backslash (`[i, i + 2)`, group `[i + 1, i + 2)`, not parsed further) -/
 def NodeOK (c : Cand) : Prop :=
-  c.inner = true ∧ ∃ (strong : Bool) (d : Char), (c.start, c.pstart, c.pend, c.stop, strong) ∈ L ∧
+  (c.inner = true ∧ ∃ (strong : Bool) (d : Char), (c.start, c.pstart, c.pend, c.stop, strong) ∈ L ∧
     ∀ kids, build s found (.tok c kids) =
-      if strong then Mistletoe.Inline.strong [d] (builds s found kids) else Mistletoe.Inline.emphasis [d] (builds s found kids)
+      if strong then Mistletoe.Inline.strong [d] (builds s found kids) else Mistletoe.Inline.emphasis [d] (builds s found kids)) ∨
+  (c.inner = false ∧ c.pstart = c.start + 1 ∧ c.pend = c.start + 2 ∧ c.stop = c.start + 2 ∧
+    skip c.start = true ∧ skip (c.start + 1) = false ∧
+    ∀ kids, build s found (.tok c kids) = Mistletoe.Inline.escapeSequence (slice s (c.start + 1) (c.start + 2)))
 
-/-- every span is a candidate of the forest, or does not touch `[a, b)` -/
+/-- every span is a candidate of the forest, or does not touch `[a, b)`; every escaping backslash in `[a, b)` is the
+    start of a candidate of the forest -/
 def Cover (N : List Cand) (a b : Nat) : Prop :=
-  ∀ p ∈ L, (∃ c ∈ N, c.start = p.1 ∧ c.pstart = p.2.1 ∧ c.pend = p.2.2.1 ∧ c.stop = p.2.2.2.1) ∨ Quiet p a b
+  (∀ p ∈ L, (∃ c ∈ N, c.start = p.1 ∧ c.pstart = p.2.1 ∧ c.pend = p.2.2.1 ∧ c.stop = p.2.2.2.1) ∨ Quiet p a b) ∧
+  (∀ i, a ≤ i → i < b → skip i = true → ∃ c ∈ N, c.start = i)
 
-abbrev E : Nat → Str := emitAt (escChar q.dq q.sq) L s
+abbrev E : Nat → Str := emitAt (escChar q.dq q.sq) L skip s
+
+theorem node_pos {c : Cand} (hC : Ctx L) (h : NodeOK s found L skip c) : c.start < c.stop := by
+  rcases h with ⟨_, strong, d, hm, _⟩ | ⟨_, _, _, h3, _⟩
+  · have := hC.wf _ hm; simp only at this; omega
+  · omega
 
 theorem render_raw (hC : Ctx L) (hamp : ∀ c ∈ s, c ≠ '&') (a b : Nat) (hab : a ≤ b) (hb : b ≤ s.length)
-    (hq : ∀ p ∈ L, Quiet p a b) :
-    R q s found (if a ≠ b then [.raw a b] else []) = walk (E q s L) a b := by
+    (hq : ∀ p ∈ L, Quiet p a b) (hsk : ∀ i, a ≤ i → i < b → skip i = false) :
+    R q s found (if a ≠ b then [.raw a b] else []) = walk (E q s L skip) a b := by
   by_cases he : a = b
   · subst he; simp [walk_self, R_nil]
   · rw [if_pos he]
@@ -500,8 +535,11 @@ theorem render_raw (hC : Ctx L) (hamp : ∀ c ∈ s, c ≠ '&') (a b : Nat) (hab
     simp only [R, builds, build, InertInline.unescape_inert _ hamp', renderInlines, renderInline, flat,
       List.flatMap_cons, List.flatMap_nil, flatEv, List.append_nil]
     unfold walk
-    have := cat_raw q.dq q.sq (E q s L) s (b - a) a (by omega)
-      (fun i h1 h2 => emit_quiet _ L s hC i (fun p hp => (hq p hp).mono h1 (by omega)))
+    have := cat_raw q.dq q.sq (E q s L skip) s (b - a) a (by omega)
+      (fun i h1 h2 => by
+        show emitAt _ L skip s i = _
+        rw [emit_quiet _ L skip s hC i (fun p hp => (hq p hp).mono h1 (by omega)), hsk i h1 (by omega)]
+        rfl)
     rw [this]
     have e : a + (b - a) = b := by omega
     rw [e]
@@ -509,143 +547,206 @@ theorem render_raw (hC : Ctx L) (hamp : ∀ c ∈ s, c ≠ '&') (a b : Nat) (hab
 theorem tag_strong : flat [Ev.otag "strong".toList []] = openTag true ∧ flat [Ev.ctag "strong".toList] = closeTag true ∧
     flat [Ev.otag "em".toList []] = openTag false ∧ flat [Ev.ctag "em".toList] = closeTag false := by decide
 
+variable {q s found L skip}
+
+theorem cover_split (hC : Ctx L) (t : PTok) (earlier : List PTok) (a e : Nat) (hk : KidsOK (t :: earlier) a e)
+    (hN : ∀ c ∈ nodesL (t :: earlier), NodeOK s found L skip c) (hcov : Cover L skip (nodesL (t :: earlier)) a e) :
+    Cover L skip (nodesL earlier) a t.c.start ∧ Cover L skip (nodes t) t.c.start t.c.stop ∧
+      (∀ p ∈ L, Quiet p t.c.stop e) ∧ (∀ i, t.c.stop ≤ i → i < e → skip i = false) := by
+  simp only [KidsOK] at hk
+  have wt := wf_cand t hk.1
+  unfold CandWF at wt
+  have hpos : ∀ c ∈ nodesL (t :: earlier), c.start < c.stop := fun c hc => node_pos s found L skip hC (hN c hc)
+  simp only [nodesL, List.mem_append] at hpos hcov
+  refine ⟨⟨?_, ?_⟩, ⟨?_, ?_⟩, ?_, ?_⟩
+  · intro p hp
+    rcases hcov.1 p hp with ⟨c', hc', h1, h2, h3, h4⟩ | hq
+    · simp only [List.mem_append] at hc'
+      rcases hc' with hc' | hc'
+      · right; have := nodes_range t hk.1 c' hc'; unfold Quiet; omega
+      · left; exact ⟨c', hc', h1, h2, h3, h4⟩
+    · right; exact hq.mono (by omega) (by omega)
+  · intro i h1 h2 hs
+    obtain ⟨c', hc', he⟩ := hcov.2 i h1 (by omega) hs
+    simp only [List.mem_append] at hc'
+    rcases hc' with hc' | hc'
+    · have := nodes_range t hk.1 c' hc'; omega
+    · exact ⟨c', hc', he⟩
+  · intro p hp
+    rcases hcov.1 p hp with ⟨c', hc', h1, h2, h3, h4⟩ | hq
+    · simp only [List.mem_append] at hc'
+      rcases hc' with hc' | hc'
+      · left; exact ⟨c', hc', h1, h2, h3, h4⟩
+      · right; have := nodesL_range earlier _ _ hk.2.2.2 c' hc'; unfold Quiet; omega
+    · right; exact hq.mono (by omega) (by omega)
+  · intro i h1 h2 hs
+    obtain ⟨c', hc', he⟩ := hcov.2 i (by omega) (by omega) hs
+    simp only [List.mem_append] at hc'
+    rcases hc' with hc' | hc'
+    · exact ⟨c', hc', he⟩
+    · have := nodesL_range earlier _ _ hk.2.2.2 c' hc'
+      have := hpos c' (Or.inr hc'); omega
+  · intro p hp
+    rcases hcov.1 p hp with ⟨c', hc', h1, h2, h3, h4⟩ | hq
+    · simp only [List.mem_append] at hc'
+      rcases hc' with hc' | hc'
+      · have := nodes_range t hk.1 c' hc'; unfold Quiet; omega
+      · have := nodesL_range earlier _ _ hk.2.2.2 c' hc'; unfold Quiet; omega
+    · exact hq.mono (by omega) (by omega)
+  · intro i h1 h2
+    cases hs : skip i with
+    | false => rfl
+    | true =>
+      obtain ⟨c', hc', he⟩ := hcov.2 i (by omega) h2 hs
+      simp only [List.mem_append] at hc'
+      rcases hc' with hc' | hc'
+      · have := nodes_range t hk.1 c' hc'
+        have := hpos c' (Or.inl hc'); omega
+      · have := nodesL_range earlier _ _ hk.2.2.2 c' hc'
+        have := hpos c' (Or.inr hc'); omega
+
+theorem cover_nil (a e : Nat) (hcov : Cover L skip (nodesL []) a e) :
+    (∀ p ∈ L, Quiet p a e) ∧ (∀ i, a ≤ i → i < e → skip i = false) := by
+  refine ⟨?_, ?_⟩
+  · intro p hp
+    rcases hcov.1 p hp with ⟨c', hc', _⟩ | hq
+    · simp [nodesL] at hc'
+    · exact hq
+  · intro i h1 h2
+    cases hs : skip i with
+    | false => rfl
+    | true =>
+      obtain ⟨c', hc', _⟩ := hcov.2 i h1 h2 hs
+      simp [nodesL] at hc'
+
 mutual
 theorem render_make (hC : Ctx L) (hamp : ∀ c ∈ s, c ≠ '&') : ∀ (t : PTok), t.WF → t.c.stop ≤ s.length →
-    (∀ c ∈ nodes t, NodeOK s found L c) → Cover L (nodes t) t.c.start t.c.stop →
-    R q s found [make t] = walk (E q s L) t.c.start t.c.stop
+    (∀ c ∈ nodes t, NodeOK s found L skip c) → Cover L skip (nodes t) t.c.start t.c.stop →
+    R q s found [make t] = walk (E q s L skip) t.c.start t.c.stop
   | .mk c kids, hwf, hlen, hN, hcov => by
     simp only [PTok.WF, CandWF] at hwf
     simp only [PTok.c] at hlen hcov ⊢
-    obtain ⟨hin, strong, d, hmem, hb⟩ := hN c (by simp [nodes])
-    have wp := hC.wf _ hmem
-    simp only at wp
-    have ih := render_rev hC hamp kids c.pstart c.pend hwf.2 (by omega) (by omega)
-      (fun c' hc' => hN c' (by simp [nodes, hc'])) (by
+    rcases hN c (by simp [nodes]) with ⟨hin, strong, d, hmem, hb⟩ | ⟨hin, e1, e2, e3, hs0, hs1, hb⟩
+    · -- an emphasis
+      have wp := hC.wf _ hmem
+      simp only at wp
+      have ih := render_rev hC hamp kids c.pstart c.pend hwf.2 (by omega) (by omega)
+        (fun c' hc' => hN c' (by simp [nodes, hc'])) (by
+          refine ⟨?_, ?_⟩
+          · intro p hp
+            rcases hcov.1 p hp with ⟨c', hc', h1, h2, h3, h4⟩ | hq
+            · simp only [nodes, List.mem_cons] at hc'
+              rcases hc' with rfl | hc'
+              · right; unfold Quiet; omega
+              · left; exact ⟨c', hc', h1, h2, h3, h4⟩
+            · right; exact hq.mono (by omega) (by omega)
+          · intro i h1 h2 hs
+            obtain ⟨c', hc', he⟩ := hcov.2 i (by omega) (by omega) hs
+            simp only [nodes, List.mem_cons] at hc'
+            rcases hc' with rfl | hc'
+            · omega
+            · exact ⟨c', hc', he⟩)
+      rw [walk_split _ c.start c.pstart c.stop (by omega) (by omega),
+        walk_split _ c.pstart c.pend c.stop (by omega) (by omega), ← ih]
+      have ho : walk (E q s L skip) c.start c.pstart = openTag strong := by
+        rw [walk_first _ _ _ (by omega)]
+        · show emitAt _ L skip s c.start = _
+          rw [emit_delim _ L skip s hC c.start _ hmem (by simp only; omega)]
+          simp only [if_true]
+          rw [if_neg (by omega)]; simp
+        · intro i h1 h2
+          show emitAt _ L skip s i = _
+          rw [emit_delim _ L skip s hC i _ hmem (by simp only; omega)]
+          simp only
+          rw [if_neg (by omega), if_neg (by omega)]; rfl
+      have hcl : walk (E q s L skip) c.pend c.stop = closeTag strong := by
+        rw [walk_last _ _ _ (by omega)]
+        · show emitAt _ L skip s (c.stop - 1) = _
+          rw [emit_delim _ L skip s hC (c.stop - 1) _ hmem (by simp only; omega)]
+          simp only
+          rw [if_neg (by omega), if_pos (by omega)]; simp
+        · intro i h1 h2
+          show emitAt _ L skip s i = _
+          rw [emit_delim _ L skip s hC i _ hmem (by simp only; omega)]
+          simp only
+          rw [if_neg (by omega), if_neg (by omega)]; rfl
+      rw [ho, hcl]
+      simp only [make, hin, if_true]
+      simp only [R, builds, hb]
+      cases strong
+      · simp only [Bool.false_eq_true, if_false, renderInlines, renderInline, List.append_nil, InertInline.flat_append]
+        rw [tag_strong.2.2.1, tag_strong.2.2.2, List.append_assoc]
+      · simp only [if_true, renderInlines, renderInline, List.append_nil, InertInline.flat_append]
+        rw [tag_strong.1, tag_strong.2.1, List.append_assoc]
+    · -- an escape sequence
+      have hq : ∀ p ∈ L, Quiet p c.start (c.start + 2) := by
         intro p hp
-        rcases hcov p hp with ⟨c', hc', h1, h2, h3, h4⟩ | hq
+        have wp := hC.wf p hp
+        rcases hcov.1 p hp with ⟨c', hc', h1, h2, h3, h4⟩ | hq
         · simp only [nodes, List.mem_cons] at hc'
           rcases hc' with rfl | hc'
-          · right; unfold Quiet; omega
-          · left; exact ⟨c', hc', h1, h2, h3, h4⟩
-        · right; exact hq.mono (by omega) (by omega))
-    rw [walk_split _ c.start c.pstart c.stop (by omega) (by omega),
-      walk_split _ c.pstart c.pend c.stop (by omega) (by omega), ← ih]
-    have ho : walk (E q s L) c.start c.pstart = openTag strong := by
-      rw [walk_first _ _ _ (by omega)]
-      · show emitAt _ L s c.start = _
-        rw [emit_delim _ L s hC c.start _ hmem (by simp only; omega)]
-        simp only [if_true]
-        rw [if_neg (by omega)]; simp
-      · intro i h1 h2
-        show emitAt _ L s i = _
-        rw [emit_delim _ L s hC i _ hmem (by simp only; omega)]
-        simp only
-        rw [if_neg (by omega), if_neg (by omega)]; rfl
-    have hcl : walk (E q s L) c.pend c.stop = closeTag strong := by
-      rw [walk_last _ _ _ (by omega)]
-      · show emitAt _ L s (c.stop - 1) = _
-        rw [emit_delim _ L s hC (c.stop - 1) _ hmem (by simp only; omega)]
-        simp only
-        rw [if_neg (by omega), if_pos (by omega)]; simp
-      · intro i h1 h2
-        show emitAt _ L s i = _
-        rw [emit_delim _ L s hC i _ hmem (by simp only; omega)]
-        simp only
-        rw [if_neg (by omega), if_neg (by omega)]; rfl
-    rw [ho, hcl]
-    simp only [make, hin, if_true]
-    simp only [R, builds, hb]
-    cases strong
-    · simp only [Bool.false_eq_true, if_false, renderInlines, renderInline, List.append_nil, InertInline.flat_append]
-      rw [tag_strong.2.2.1, tag_strong.2.2.2, List.append_assoc]
-    · simp only [if_true, renderInlines, renderInline, List.append_nil, InertInline.flat_append]
-      rw [tag_strong.1, tag_strong.2.1, List.append_assoc]
+          · omega
+          · have := nodesL_range kids _ _ hwf.2 c' hc'; omega
+        · rw [e3] at hq; exact hq
+      have hlt : c.start + 1 < s.length := by omega
+      have hc1 : s[c.start + 1]? = some s[c.start + 1] := List.getElem?_eq_getElem hlt
+      have hsl : slice s (c.start + 1) (c.start + 2) = [s[c.start + 1]] := by
+        rw [slice_step s _ _ _ (by omega) hc1, slice_self]
+      have hmk : make (.mk c kids) = .tok c [] := by simp [make, hin]
+      rw [hmk]
+      simp only [R, builds]
+      rw [hb, hsl]
+      simp only [renderInlines, renderInline, flat, List.flatMap_cons, List.flatMap_nil, flatEv, List.append_nil]
+      rw [e3]
+      have e : walk (E q s L skip) c.start (c.start + 2) = E q s L skip c.start ++ (E q s L skip (c.start + 1) ++ []) := by
+        unfold walk
+        have : c.start + 2 - c.start = 0 + 1 + 1 := by omega
+        rw [this]; rfl
+      rw [e]
+      show _ = emitAt _ L skip s c.start ++ (emitAt _ L skip s (c.start + 1) ++ [])
+      rw [emit_quiet _ L skip s hC c.start (fun p hp => (hq p hp).mono (by omega) (by omega)),
+        emit_quiet _ L skip s hC (c.start + 1) (fun p hp => (hq p hp).mono (by omega) (by omega)), hs0, hs1, hc1]
+      simp [escChar]
 theorem render_rev (hC : Ctx L) (hamp : ∀ c ∈ s, c ≠ '&') : ∀ (ts : List PTok) (a e : Nat), KidsOK ts a e → a ≤ e →
-    e ≤ s.length → (∀ c ∈ nodesL ts, NodeOK s found L c) → Cover L (nodesL ts) a e →
-    R q s found (makeTokensRev ts a e) = walk (E q s L) a e
+    e ≤ s.length → (∀ c ∈ nodesL ts, NodeOK s found L skip c) → Cover L skip (nodesL ts) a e →
+    R q s found (makeTokensRev ts a e) = walk (E q s L skip) a e
   | [], a, e, _, hae, hlen, _, hcov => by
     simp only [makeTokensRev]
-    apply render_raw q s found L hC hamp a e hae hlen
-    intro p hp
-    rcases hcov p hp with ⟨c', hc', _⟩ | hq
-    · simp [nodesL] at hc'
-    · exact hq
+    obtain ⟨h1, h2⟩ := cover_nil a e hcov
+    exact render_raw q s found L skip hC hamp a e hae hlen h1 h2
   | t :: earlier, a, e, hk, hae, hlen, hN, hcov => by
+    obtain ⟨c1, c2, c3, c4⟩ := cover_split hC t earlier a e hk hN hcov
     simp only [KidsOK] at hk
     have wt := wf_cand t hk.1
     unfold CandWF at wt
     simp only [makeTokensRev, R_append]
     have i1 := render_before hC hamp earlier a t.c.start hk.2.2.2 hk.2.1 (by omega)
-      (fun c' hc' => hN c' (by simp [nodesL, hc'])) (by
-        intro p hp
-        rcases hcov p hp with ⟨c', hc', h1, h2, h3, h4⟩ | hq
-        · simp only [nodesL, List.mem_append] at hc'
-          rcases hc' with hc' | hc'
-          · right; have := nodes_range t hk.1 c' hc'; unfold Quiet; omega
-          · left; exact ⟨c', hc', h1, h2, h3, h4⟩
-        · right; exact hq.mono (by omega) (by omega))
-    have i2 := render_make hC hamp t hk.1 (by omega) (fun c' hc' => hN c' (by simp [nodesL, hc'])) (by
-        intro p hp
-        rcases hcov p hp with ⟨c', hc', h1, h2, h3, h4⟩ | hq
-        · simp only [nodesL, List.mem_append] at hc'
-          rcases hc' with hc' | hc'
-          · left; exact ⟨c', hc', h1, h2, h3, h4⟩
-          · right; have := nodesL_range earlier _ _ hk.2.2.2 c' hc'; unfold Quiet; omega
-        · right; exact hq.mono (by omega) (by omega))
-    have i3 := render_raw q s found L hC hamp t.c.stop e (by omega) hlen (by
-        intro p hp
-        rcases hcov p hp with ⟨c', hc', h1, h2, h3, h4⟩ | hq
-        · simp only [nodesL, List.mem_append] at hc'
-          rcases hc' with hc' | hc'
-          · have := nodes_range t hk.1 c' hc'; unfold Quiet; omega
-          · have := nodesL_range earlier _ _ hk.2.2.2 c' hc'; unfold Quiet; omega
-        · exact hq.mono (by omega) (by omega))
+      (fun c' hc' => hN c' (by simp [nodesL, hc'])) c1
+    have i2 := render_make hC hamp t hk.1 (by omega) (fun c' hc' => hN c' (by simp [nodesL, hc'])) c2
+    have i3 := render_raw q s found L skip hC hamp t.c.stop e (by omega) hlen c3 c4
     rw [i1, i2, i3, walk_split _ a t.c.start e (by omega) (by omega), walk_split _ t.c.start t.c.stop e (by omega) (by omega)]
     simp
 theorem render_before (hC : Ctx L) (hamp : ∀ c ∈ s, c ≠ '&') : ∀ (ts : List PTok) (a e : Nat), KidsOK ts a e → a ≤ e →
-    e ≤ s.length → (∀ c ∈ nodesL ts, NodeOK s found L c) → Cover L (nodesL ts) a e →
-    R q s found (makeBefore ts a e) = walk (E q s L) a e
+    e ≤ s.length → (∀ c ∈ nodesL ts, NodeOK s found L skip c) → Cover L skip (nodesL ts) a e →
+    R q s found (makeBefore ts a e) = walk (E q s L skip) a e
   | [], a, e, _, hae, hlen, _, hcov => by
     simp only [makeBefore]
-    have := render_raw q s found L hC hamp a e hae hlen (by
-      intro p hp
-      rcases hcov p hp with ⟨c', hc', _⟩ | hq
-      · simp [nodesL] at hc'
-      · exact hq)
+    obtain ⟨h1, h2⟩ := cover_nil a e hcov
+    have := render_raw q s found L skip hC hamp a e hae hlen h1 h2
     rw [← this]
     by_cases h : e > a
     · rw [if_pos h, if_pos (by omega)]
     · rw [if_neg h, if_neg (by omega)]
   | t :: earlier, a, e, hk, hae, hlen, hN, hcov => by
+    obtain ⟨c1, c2, c3, c4⟩ := cover_split hC t earlier a e hk hN hcov
     simp only [KidsOK] at hk
     have wt := wf_cand t hk.1
     unfold CandWF at wt
     simp only [makeBefore, R_append]
     have i1 := render_before hC hamp earlier a t.c.start hk.2.2.2 hk.2.1 (by omega)
-      (fun c' hc' => hN c' (by simp [nodesL, hc'])) (by
-        intro p hp
-        rcases hcov p hp with ⟨c', hc', h1, h2, h3, h4⟩ | hq
-        · simp only [nodesL, List.mem_append] at hc'
-          rcases hc' with hc' | hc'
-          · right; have := nodes_range t hk.1 c' hc'; unfold Quiet; omega
-          · left; exact ⟨c', hc', h1, h2, h3, h4⟩
-        · right; exact hq.mono (by omega) (by omega))
-    have i2 := render_make hC hamp t hk.1 (by omega) (fun c' hc' => hN c' (by simp [nodesL, hc'])) (by
-        intro p hp
-        rcases hcov p hp with ⟨c', hc', h1, h2, h3, h4⟩ | hq
-        · simp only [nodesL, List.mem_append] at hc'
-          rcases hc' with hc' | hc'
-          · left; exact ⟨c', hc', h1, h2, h3, h4⟩
-          · right; have := nodesL_range earlier _ _ hk.2.2.2 c' hc'; unfold Quiet; omega
-        · right; exact hq.mono (by omega) (by omega))
-    have i3 := render_raw q s found L hC hamp t.c.stop e (by omega) hlen (by
-        intro p hp
-        rcases hcov p hp with ⟨c', hc', h1, h2, h3, h4⟩ | hq
-        · simp only [nodesL, List.mem_append] at hc'
-          rcases hc' with hc' | hc'
-          · have := nodes_range t hk.1 c' hc'; unfold Quiet; omega
-          · have := nodesL_range earlier _ _ hk.2.2.2 c' hc'; unfold Quiet; omega
-        · exact hq.mono (by omega) (by omega))
+      (fun c' hc' => hN c' (by simp [nodesL, hc'])) c1
+    have i2 := render_make hC hamp t hk.1 (by omega) (fun c' hc' => hN c' (by simp [nodesL, hc'])) c2
+    have i3 := render_raw q s found L skip hC hamp t.c.stop e (by omega) hlen c3 c4
     have e3 : (if e > t.c.stop then [Out.raw t.c.stop e] else []) = (if t.c.stop ≠ e then [Out.raw t.c.stop e] else []) := by
       by_cases h : e > t.c.stop
       · rw [if_pos h, if_pos (by omega)]
@@ -778,11 +879,13 @@ theorem cands_wf (types : List STok) : ∀ c ∈ candsOf types ms, CandWF c ∧ 
 
 omit hW hN in
 include hK in
-theorem cands_nodeOK (types : List STok) : ∀ c ∈ candsOf types ms, NodeOK s (ms.map foundOf) (ms.map tup) c := by
+theorem cands_nodeOK (types : List STok) (skip : Nat → Bool) :
+    ∀ c ∈ candsOf types ms, NodeOK s (ms.map foundOf) (ms.map tup) skip c := by
   intro c hc
   obtain ⟨i, hi, rfl⟩ := List.mem_iff_getElem.1 hc
   rw [candsOf_get]
   have hi' : i < ms.length := by rw [candsOf_length] at hi; exact hi
+  left
   refine ⟨rfl, ms[i].kind == .strong, ms[i].delimiter, ?_, ?_⟩
   · exact List.mem_map.2 ⟨ms[i], List.getElem_mem hi', rfl⟩
   · intro kids
@@ -792,7 +895,8 @@ theorem cands_nodeOK (types : List STok) : ∀ c ∈ candsOf types ms, NodeOK s 
     rcases hK ms[i] (List.getElem_mem hi') with h | h <;> simp [h]
 
 omit hW hN in
-theorem cands_cover (types : List STok) (a b : Nat) : Cover (ms.map tup) (candsOf types ms) a b := by
+theorem cands_cover (types : List STok) (a b : Nat) : Cover (ms.map tup) (fun _ => false) (candsOf types ms) a b := by
+  refine ⟨?_, fun i _ _ h => by cases h⟩
   intro p hp
   obtain ⟨i, hi, rfl⟩ := List.mem_iff_getElem.1 hp
   simp only [List.length_map] at hi
@@ -805,16 +909,18 @@ include hK in
 /-- the HTML of the tokens built from nested emphasis matches is the walk over their spans -/
 theorem render_ms (q : Quotes) (types : List STok) (hamp : ∀ c ∈ s, c ≠ '&') :
     flat (renderInlines q (builds s (ms.map foundOf) (Span.tokenize (candsOf types ms) s.length))) =
-      htmlOf (escChar q.dq q.sq) (ms.map tup) s := by
+      htmlOf (escChar q.dq q.sq) (ms.map tup) (fun _ => false) s := by
   have hwf := cands_wf s ms hW types
   have hok := resolve_ok s.length (candsOf types ms) hwf
   have hnodes := resolve_nodes (candsOf types ms) (cands_lam s ms hW hN types) (fun c hc => (hwf c hc).1)
-  have := render_rev q s (ms.map foundOf) (ms.map tup) (ctx_ms s ms hW hN) hamp (resolve (candsOf types ms)).reverse 0 s.length
+  have := render_rev (q := q) (found := ms.map foundOf) (skip := fun _ => false) (ctx_ms s ms hW hN) hamp
+    (resolve (candsOf types ms)).reverse 0 s.length
     hok (Nat.zero_le _) (Nat.le_refl _)
-    (fun c hc => cands_nodeOK s ms hK types c ((hnodes c).1 hc))
+    (fun c hc => cands_nodeOK s ms hK types _ c ((hnodes c).1 hc))
     (by
+      refine ⟨?_, fun i _ _ h => by cases h⟩
       intro p hp
-      rcases cands_cover ms types 0 s.length p hp with ⟨c, hc, h⟩ | h
+      rcases (cands_cover ms types 0 s.length).1 p hp with ⟨c, hc, h⟩ | h
       · exact Or.inl ⟨c, (hnodes c).2 hc, h⟩
       · exact Or.inr h)
   unfold R at this
@@ -826,7 +932,705 @@ end
 
 end Mistletoe.EmphHtml
 
-/-! ## E. The theorems -/
+/-! ## E. Backslash escapes: facts about the specification (`Spec/EmphasisEsc.lean`) -/
+
+namespace Mistletoe.EmphHtml
+open Mistletoe Mistletoe.Spec Mistletoe.Spec.Emphasis Mistletoe.Spec.EmphasisEsc
+
+/-! ### the delimiters of every emphasis node lie inside delimiter runs -/
+
+/-- `[a, b)` lies inside one of the runs `rs` -/
+def InRun (rs : List Run) (a b : Nat) : Prop := ∃ r0 ∈ rs, r0.start ≤ a ∧ b ≤ r0.start + r0.count
+
+/-- invariant of *process emphasis*: what is left of every stack entry, and both delimiters of every node inserted so
+    far, lie inside the original runs -/
+structure RInv (rs : List Run) (st : State) : Prop where
+  stack : ∀ r ∈ st.below ++ st.above, 1 ≤ r.count ∧ InRun rs r.start (r.start + r.count)
+  found : ∀ m ∈ st.found, InRun rs m.openStart m.openStop ∧ InRun rs m.closeStart m.closeStop
+
+theorem InRun.sub {rs : List Run} {a b a' b' : Nat} (h : InRun rs a b) (h1 : a ≤ a') (h2 : b' ≤ b) : InRun rs a' b' := by
+  obtain ⟨r0, hr0, h3, h4⟩ := h
+  exact ⟨r0, hr0, by omega, by omega⟩
+
+theorem RInv.step {rs : List Run} {st st' : State} (h : RInv rs st) (hs : Emphasis.step st = some st') : RInv rs st' := by
+  unfold Emphasis.step at hs
+  cases ha : st.above with
+  | nil => rw [ha] at hs; cases hs
+  | cons c rest =>
+    rw [ha] at hs
+    simp only at hs
+    have hb : ∀ r ∈ st.below, 1 ≤ r.count ∧ InRun rs r.start (r.start + r.count) := fun r hr => h.stack r (by simp [hr])
+    have hc := h.stack c (by simp [ha])
+    have hr : ∀ r ∈ rest, 1 ≤ r.count ∧ InRun rs r.start (r.start + r.count) := fun r hr => h.stack r (by simp [ha, hr])
+    split at hs
+    · cases hs
+      refine ⟨fun r hr' => ?_, h.found⟩
+      simp only [List.mem_append, List.mem_cons] at hr'
+      rcases hr' with (rfl | hr') | hr'
+      · exact hc
+      · exact hb r hr'
+      · exact hr r hr'
+    · cases hl : lookBack c (st.bottoms (keyOf c)) st.below with
+      | none =>
+        rw [hl] at hs
+        simp only at hs
+        cases hs
+        refine ⟨fun r hr' => ?_, h.found⟩
+        simp only [List.mem_append] at hr'
+        rcases hr' with hr' | hr'
+        · split at hr'
+          · rcases List.mem_cons.1 hr' with rfl | hr'
+            · exact hc
+            · exact hb r hr'
+          · exact hb r hr'
+        · exact hr r hr'
+      | some ou =>
+        obtain ⟨o, under⟩ := ou
+        rw [hl] at hs
+        simp only at hs
+        cases hs
+        obtain ⟨sk, hsk⟩ := EmphRefine.lookBack_split c _ _ o under hl
+        have ho := hb o (by rw [hsk]; simp)
+        have hu : ∀ r ∈ under, 1 ≤ r.count ∧ InRun rs r.start (r.start + r.count) :=
+          fun r hr' => hb r (by rw [hsk]; simp [hr'])
+        have hn : (if (2 ≤ o.count && 2 ≤ c.count) = true then 2 else 1) ≤ o.count ∧
+            (if (2 ≤ o.count && 2 ≤ c.count) = true then 2 else 1) ≤ c.count := by
+          split
+          · rename_i h2
+            simp only [Bool.and_eq_true, decide_eq_true_eq] at h2
+            omega
+          · omega
+        generalize (if (2 ≤ o.count && 2 ≤ c.count) = true then 2 else 1) = n at hn ⊢
+        refine ⟨fun r hr' => ?_, fun m hm => ?_⟩
+        · simp only [List.mem_append] at hr'
+          rcases hr' with hr' | hr'
+          · split at hr'
+            · exact hu r hr'
+            · rename_i hne
+              rcases List.mem_cons.1 hr' with rfl | hr'
+              · simp only at hne ⊢
+                exact ⟨by omega, ho.2.sub (by omega) (by omega)⟩
+              · exact hu r hr'
+          · split at hr'
+            · exact hr r hr'
+            · rename_i hne
+              rcases List.mem_cons.1 hr' with rfl | hr'
+              · simp only at hne ⊢
+                exact ⟨by omega, hc.2.sub (by omega) (by omega)⟩
+              · exact hr r hr'
+        · rcases List.mem_cons.1 hm with rfl | hm
+          · simp only
+            exact ⟨ho.2.sub (by omega) (by omega), hc.2.sub (by omega) (by omega)⟩
+          · exact h.found m hm
+
+theorem RInv.run {rs : List Run} : ∀ (n : Nat) (st : State), RInv rs st → RInv rs (Emphasis.run n st)
+  | 0, _, h => h
+  | n + 1, st, h => by
+    simp only [Emphasis.run]
+    cases hs : Emphasis.step st with
+    | none => exact h
+    | some st' => exact RInv.run n st' (h.step hs)
+
+theorem process_inRun (rs : List Run) (hpos : ∀ r ∈ rs, 1 ≤ r.count) :
+    ∀ m ∈ process rs, InRun rs m.openStart m.openStop ∧ InRun rs m.closeStart m.closeStop := by
+  have h0 : RInv rs (initial rs) := by
+    refine ⟨fun r hr => ?_, fun m hm => by simp [initial] at hm⟩
+    simp only [initial, List.nil_append] at hr
+    exact ⟨hpos r hr, r, hr, Nat.le_refl _, Nat.le_refl _⟩
+  intro m hm
+  exact (RInv.run _ _ h0).found m (List.mem_reverse.1 hm)
+
+/-! ### the characters of a delimiter run are not escaped -/
+
+theorem runsEsc_unescaped (s : Str) : ∀ r ∈ runsEsc s, 1 ≤ r.count ∧
+    ∀ k, r.start ≤ k → k < r.start + r.count → escapedAt s k = false := by
+  intro r hr
+  obtain ⟨x, hx, rfl⟩ := List.mem_map.1 hr
+  unfold runSpansEsc at hx
+  obtain ⟨_, h2, h3⟩ := EmphRefineEsc.runSpansD_spec _ _ _ x hx
+  simp only [mkRun]
+  refine ⟨h2, fun k h4 h5 => ?_⟩
+  have := h3 (k - x.2.1) (by omega)
+  have e : x.2.1 - 0 + (k - x.2.1) = k := by omega
+  rw [e] at this
+  unfold delims at this
+  rw [List.getElem?_zipWith] at this
+  unfold escapedAt
+  cases h6 : s[k]? with
+  | none => simp [h6] at this
+  | some ch =>
+    cases h7 : (escMarks false s)[k]? with
+    | none => rfl
+    | some b =>
+      simp only [h6, h7, Option.some.injEq] at this
+      cases b with
+      | false => rfl
+      | true => simp [delimOf] at this
+
+/-- **no delimiter character of an emphasis node is backslash-escaped** -/
+theorem emphasisEsc_unescaped (s : Str) : ∀ m ∈ emphasisEsc s, ∀ k,
+    (m.openStart ≤ k ∧ k < m.openStop) ∨ (m.closeStart ≤ k ∧ k < m.closeStop) → escapedAt s k = false := by
+  intro m hm k hk
+  have hr := runsEsc_unescaped s
+  obtain ⟨⟨r1, hr1, h1, h2⟩, ⟨r2, hr2, h3, h4⟩⟩ := process_inRun (runsEsc s) (fun r h => (hr r h).1) m hm
+  rcases hk with hk | hk
+  · exact (hr r1 hr1).2 k (by omega) (by omega)
+  · exact (hr r2 hr2).2 k (by omega) (by omega)
+
+end Mistletoe.EmphHtml
+
+/-! ## F. Backslash escapes: `EscapeSequence.find`, and the other classes in the presence of backslashes -/
+
+namespace Mistletoe.EmphHtml
+open Mistletoe Mistletoe.Spec Mistletoe.Spec.EmphasisEsc Mistletoe.InlineScan Mistletoe.Inline Mistletoe.InertInline
+
+/-- the character class of `EscapeSequence.pattern` is the specification's ASCII punctuation -/
+theorem escapable_eq (c : Char) : escapable c = isAsciiPunctuation c := by
+  by_cases h : c.toNat < 128
+  · have key : ∀ n : Fin 128, escapable (Char.ofNat n) = isAsciiPunctuation (Char.ofNat n) := by decide +kernel
+    have := key ⟨c.toNat, h⟩
+    simpa [Char.ofNat_toNat] using this
+  · have h1 : isAsciiPunctuation c = false := by
+      unfold isAsciiPunctuation inRanges
+      simp only [List.any_cons, List.any_nil, Bool.or_false, Bool.or_eq_false_iff, Bool.and_eq_false_iff,
+        decide_eq_false_iff_not]
+      omega
+    have h2 : escapable c = false := by
+      cases he : escapable c with
+      | false => rfl
+      | true =>
+        have hall : ∀ d ∈ "!\"#$%&'()*+,-./:;<=>?@[\\]^_`{|}~".toList, d.toNat < 128 := by decide
+        unfold escapable at he
+        rw [List.contains_iff_mem] at he
+        exact absurd (hall c he) h
+    rw [h1, h2]
+
+/-- start positions of the matches of `EscapeSequence.pattern`, left to right, non-overlapping -/
+def escPos : Nat → Str → List Nat
+  | pos, '\\' :: d :: rest => if escapable d then pos :: escPos (pos + 2) rest else escPos (pos + 1) (d :: rest)
+  | pos, _ :: rest => escPos (pos + 1) rest
+  | _, [] => []
+
+theorem escPos_bs_esc (pos : Nat) (d : Char) (r : Str) (h : escapable d = true) :
+    escPos pos ('\\' :: d :: r) = pos :: escPos (pos + 2) r := by
+  simp [escPos, h]
+
+theorem escPos_bs_lit (pos : Nat) (d : Char) (r : Str) (h : escapable d = false) :
+    escPos pos ('\\' :: d :: r) = escPos (pos + 1) (d :: r) := by
+  simp [escPos, h]
+
+theorem escPos_other (pos : Nat) (c : Char) (r : Str) (h : c ≠ '\\' ∨ r = []) :
+    escPos pos (c :: r) = escPos (pos + 1) r := by
+  rcases h with h | rfl
+  · rw [escPos]
+    intro d rest' e _
+    exact h e
+  · rw [escPos]
+    intro d rest' _ e
+    cases e
+
+theorem escPos_lb : ∀ (pos : Nat) (s : Str), ∀ i ∈ escPos pos s, pos ≤ i := by
+  apply escPos.induct (motive := fun pos s => ∀ i ∈ escPos pos s, pos ≤ i)
+  · intro pos d rest h ih i hi
+    rw [escPos_bs_esc pos d rest h] at hi
+    rcases List.mem_cons.1 hi with rfl | hi
+    · omega
+    · have := ih i hi; omega
+  · intro pos d rest h ih i hi
+    rw [escPos_bs_lit pos d rest (by simpa using h)] at hi
+    have := ih i hi; omega
+  · intro pos c rest h ih i hi
+    rw [escPos] at hi
+    · have := ih i hi; omega
+    · exact h
+  · intro pos i hi
+    simp [escPos] at hi
+
+/-- every match is a backslash followed by a character, inside the text -/
+theorem escPos_spec : ∀ (pos : Nat) (s : Str), ∀ i ∈ escPos pos s, s[i - pos]? = some '\\' ∧ i - pos + 2 ≤ s.length := by
+  apply escPos.induct (motive := fun pos s => ∀ i ∈ escPos pos s, s[i - pos]? = some '\\' ∧ i - pos + 2 ≤ s.length)
+  · intro pos d rest h ih i hi
+    rw [escPos_bs_esc pos d rest h] at hi
+    rcases List.mem_cons.1 hi with rfl | hi
+    · simp
+    · have hl := escPos_lb _ _ i hi
+      obtain ⟨h1, h2⟩ := ih i hi
+      have e : i - pos = (i - (pos + 2)) + 1 + 1 := by omega
+      rw [e]
+      simp only [List.getElem?_cons_succ, List.length_cons]
+      exact ⟨h1, by omega⟩
+  · intro pos d rest h ih i hi
+    rw [escPos_bs_lit pos d rest (by simpa using h)] at hi
+    have hl := escPos_lb _ _ i hi
+    obtain ⟨h1, h2⟩ := ih i hi
+    have e : i - pos = (i - (pos + 1)) + 1 := by omega
+    rw [e]
+    simp only [List.getElem?_cons_succ, List.length_cons] at h1 h2 ⊢
+    exact ⟨h1, by omega⟩
+  · intro pos c rest h ih i hi
+    rw [escPos] at hi
+    · have hl := escPos_lb _ _ i hi
+      obtain ⟨h1, h2⟩ := ih i hi
+      have e : i - pos = (i - (pos + 1)) + 1 := by omega
+      rw [e]
+      simp only [List.getElem?_cons_succ, List.length_cons]
+      exact ⟨h1, by omega⟩
+    · exact h
+  · intro pos i hi
+    simp [escPos] at hi
+
+/-- the matches do not overlap -/
+theorem escPos_gap : ∀ (pos : Nat) (s : Str), (escPos pos s).Pairwise (fun i j => i + 2 ≤ j) := by
+  apply escPos.induct (motive := fun pos s => (escPos pos s).Pairwise (fun i j => i + 2 ≤ j))
+  · intro pos d rest h ih
+    rw [escPos_bs_esc pos d rest h, List.pairwise_cons]
+    exact ⟨fun j hj => escPos_lb _ _ j hj, ih⟩
+  · intro pos d rest h ih
+    rw [escPos_bs_lit pos d rest (by simpa using h)]
+    exact ih
+  · intro pos c rest h ih
+    rw [escPos]
+    · exact ih
+    · exact h
+  · intro pos
+    simp [escPos]
+
+theorem pairwise_mem {α} {R : α → α → Prop} : ∀ (l : List α), l.Pairwise R → ∀ a ∈ l, ∀ b ∈ l, a = b ∨ R a b ∨ R b a
+  | [], _, a, ha, _, _ => by simp at ha
+  | x :: l, h, a, ha, b, hb => by
+    rw [List.pairwise_cons] at h
+    rcases List.mem_cons.1 ha with e1 | ha'
+    · rcases List.mem_cons.1 hb with e2 | hb'
+      · exact Or.inl (e1.trans e2.symm)
+      · exact Or.inr (Or.inl (e1 ▸ h.1 b hb'))
+    · rcases List.mem_cons.1 hb with e2 | hb'
+      · exact Or.inr (Or.inr (e2 ▸ h.1 a ha'))
+      · exact pairwise_mem l h.2 a ha' b hb'
+
+theorem escMarks_zero (s : Str) : ((escMarks false s)[0]?).getD false = false := by
+  cases s <;> simp [escMarks]
+
+/-- **the matches of `EscapeSequence.pattern` are the escaping backslashes of the specification**: the character
+    after position `pos + j` is backslash-escaped iff a match starts at `pos + j` -/
+theorem escPos_marks : ∀ (pos : Nat) (s : Str), ∀ j,
+    ((escMarks false s)[j + 1]?).getD false = true ↔ pos + j ∈ escPos pos s := by
+  apply escPos.induct (motive := fun pos s => ∀ j, ((escMarks false s)[j + 1]?).getD false = true ↔ pos + j ∈ escPos pos s)
+  · intro pos d rest h ih j
+    have hm : escMarks false ('\\' :: d :: rest) = false :: true :: escMarks false rest := by
+      simp [escMarks, ← escapable_eq, h]
+    rw [hm, escPos_bs_esc pos d rest h]
+    match j with
+    | 0 => simp
+    | 1 =>
+      have := escMarks_zero rest
+      simp only [List.getElem?_cons_succ, this, List.mem_cons]
+      constructor
+      · intro e; cases e
+      · rintro (e | e)
+        · omega
+        · have := escPos_lb _ _ _ e; omega
+    | k + 2 =>
+      simp only [List.getElem?_cons_succ, List.mem_cons]
+      rw [ih k]
+      have e : pos + 2 + k = pos + (k + 2) := by omega
+      rw [e]
+      constructor
+      · exact Or.inr
+      · rintro (e | e)
+        · omega
+        · exact e
+  · intro pos d rest h ih j
+    have hne : escapable d = false := by simpa using h
+    have hd : (d == '\\') = false := by
+      cases hd : (d == '\\') with
+      | false => rfl
+      | true =>
+        simp only [beq_iff_eq] at hd
+        subst hd
+        revert hne; decide
+    have hm : escMarks false ('\\' :: d :: rest) = false :: escMarks false (d :: rest) := by
+      simp [escMarks, ← escapable_eq, hne, hd]
+    rw [hm, escPos_bs_lit pos d rest hne]
+    match j with
+    | 0 =>
+      simp only [List.getElem?_cons_succ, escMarks_zero, Nat.add_zero]
+      constructor
+      · intro e; cases e
+      · intro e; have := escPos_lb _ _ _ e; omega
+    | k + 1 =>
+      simp only [List.getElem?_cons_succ]
+      rw [ih k]
+      have e : pos + 1 + k = pos + (k + 1) := by omega
+      rw [e]
+  · intro pos c rest h ih j
+    have hp : escPos pos (c :: rest) = escPos (pos + 1) rest := by
+      rw [escPos]; exact h
+    rw [hp]
+    by_cases hc : c = '\\'
+    · subst hc
+      cases rest with
+      | cons d r => exact absurd rfl (fun e => h d r rfl e)
+      | nil => simp [escMarks, escPos]
+    · have hm : escMarks false (c :: rest) = false :: escMarks false rest := by
+        have : (c == '\\') = false := by simpa using hc
+        simp [escMarks, this]
+      rw [hm]
+      match j with
+      | 0 =>
+        simp only [List.getElem?_cons_succ, escMarks_zero, Nat.add_zero]
+        constructor
+        · intro e; cases e
+        · intro e; have := escPos_lb _ _ _ e; omega
+      | k + 1 =>
+        simp only [List.getElem?_cons_succ]
+        rw [ih k]
+        have e : pos + 1 + k = pos + (k + 1) := by omega
+        rw [e]
+  · intro pos j
+    simp [escMarks, escPos]
+
+/-- the match object of the escape sequence at `i` -/
+def escM (i : Nat) : M := { start := i, stop := i + 2, gs := i + 1, ge := i + 2 }
+
+/-- **`EscapeSequence.find`** -/
+theorem findIterAux_escape : ∀ (pos : Nat) (s : Str), ∀ (fuel : Nat) (prev : Option Char), s.length + 1 ≤ fuel →
+    findIterAux escapeAt fuel pos prev s = (escPos pos s).map escM := by
+  apply escPos.induct (motive := fun pos s => ∀ (fuel : Nat) (prev : Option Char), s.length + 1 ≤ fuel →
+    findIterAux escapeAt fuel pos prev s = (escPos pos s).map escM)
+  · intro pos d rest h ih fuel prev hf
+    obtain ⟨f, rfl⟩ : ∃ f, fuel = f + 1 := ⟨fuel - 1, by omega⟩
+    rw [escPos_bs_esc pos d rest h]
+    simp only [findIterAux, escapeAt, h, if_true, List.map_cons, escM]
+    simp only [List.length_cons] at hf
+    have e2 : (if 2 = 0 then 1 else 2) = 2 := rfl
+    simp only [e2, List.drop_succ_cons, List.drop_zero]
+    rw [ih f _ (by omega)]
+  · intro pos d rest h ih fuel prev hf
+    obtain ⟨f, rfl⟩ : ∃ f, fuel = f + 1 := ⟨fuel - 1, by omega⟩
+    have hne : escapable d = false := by simpa using h
+    rw [escPos_bs_lit pos d rest hne]
+    simp only [findIterAux, escapeAt, hne, Bool.false_eq_true, if_false]
+    simp only [List.length_cons] at hf
+    exact ih f _ (by simp only [List.length_cons]; omega)
+  · intro pos c rest h ih fuel prev hf
+    obtain ⟨f, rfl⟩ : ∃ f, fuel = f + 1 := ⟨fuel - 1, by omega⟩
+    have hp : escPos pos (c :: rest) = escPos (pos + 1) rest := by
+      rw [escPos]; exact h
+    have hn : escapeAt prev (c :: rest) = none := by
+      unfold escapeAt
+      split
+      · rename_i d r heq
+        simp only [List.cons.injEq] at heq
+        exact absurd heq.2 (h d r heq.1)
+      · rfl
+    rw [hp]
+    simp only [findIterAux, hn]
+    simp only [List.length_cons] at hf
+    exact ih f _ (by omega)
+  · intro pos fuel prev hf
+    obtain ⟨f, rfl⟩ : ∃ f, fuel = f + 1 := ⟨fuel - 1, by omega⟩
+    simp [findIterAux, escPos]
+
+theorem findIter_escape (s : Str) : findIter escapeAt s = (escPos 0 s).map escM :=
+  findIterAux_escape 0 s _ none (Nat.le_refl _)
+
+/-! ### the other regex classes find nothing, backslashes or not -/
+
+theorem tildeOk_suffix : ∀ (u x : Str), tildeOk (u ++ x) = true → tildeOk x = true
+  | [], _, h => h
+  | c :: u, x, h => by
+    simp only [List.cons_append, tildeOk, Bool.and_eq_true] at h
+    exact tildeOk_suffix u x h.2
+
+theorem tildeOk_prefix : ∀ (x v : Str), tildeOk (x ++ v) = true → tildeOk x = true
+  | [], _, _ => rfl
+  | c :: x, v, h => by
+    simp only [List.cons_append, tildeOk, Bool.and_eq_true] at h ⊢
+    refine ⟨?_, tildeOk_prefix x v h.2⟩
+    cases x with
+    | nil => simp
+    | cons d x => simpa using h.1
+
+theorem strikeAt_noTilde (prev : Option Char) (r : Str) (h : tildeOk r = true) : strikeAt prev r = none := by
+  unfold strikeAt
+  split
+  · rfl
+  · simp only
+    split
+    · rfl
+    · have hd : tildeOk (r.drop (leadingBackslashes r)) = true := by
+        apply tildeOk_suffix (r.take (leadingBackslashes r))
+        rw [List.take_append_drop]; exact h
+      split
+      · rename_i body heq
+        rw [heq] at hd
+        simp [tildeOk] at hd
+      · rfl
+
+theorem autoLinkAt_noLt (prev : Option Char) (r : Str) (h : '<' ∉ r) : autoLinkAt prev r = none := by
+  unfold autoLinkAt
+  split
+  · rfl
+  · simp only
+    split
+    · rfl
+    · split
+      · rename_i body heq
+        have : '<' ∈ r.drop (leadingBackslashes r) := by rw [heq]; simp
+        exact absurd (List.mem_of_mem_drop this) h
+      · rfl
+
+/-- what the text must be like for the classes other than `EscapeSequence` and `CoreTokens` to find nothing -/
+structure ScanEsc (s : Str) : Prop where
+  lt : '<' ∉ s
+  tilde : tildeOk s = true
+  nl : '\n' ∉ s
+
+theorem ScanEsc.tail {c : Char} {rest : Str} (h : ScanEsc (c :: rest)) : ScanEsc rest := by
+  refine ⟨fun hm => h.lt (List.mem_cons_of_mem _ hm), tildeOk_suffix [c] rest h.tilde,
+    fun hm => h.nl (List.mem_cons_of_mem _ hm)⟩
+
+theorem findOne_scanEsc (s : Str) (h : ScanEsc s) (t : STok) (ht : inertClass t = true)
+    (h1 : t ≠ .escapeSequence) : findOne s [] [] t = [] := by
+  cases t with
+  | escapeSequence => exact absurd rfl h1
+  | htmlSpan =>
+    simp only [findOne, List.map_eq_nil_iff]
+    exact findIter_nil _ ScanEsc (fun _ _ => ScanEsc.tail) (fun p c r hq => htmlSpanAt_none p c r (by
+      have : c ≠ '<' := fun e => hq.lt (by simp [e])
+      simp [this])) s h
+  | strikethrough =>
+    simp only [findOne, List.map_eq_nil_iff]
+    exact findIter_nil _ ScanEsc (fun _ _ => ScanEsc.tail) (fun p c r hq => strikeAt_noTilde p _ hq.tilde) s h
+  | autoLink =>
+    simp only [findOne, List.map_eq_nil_iff]
+    exact findIter_nil _ ScanEsc (fun _ _ => ScanEsc.tail) (fun p c r hq => autoLinkAt_noLt p _ hq.lt) s h
+  | coreTokens => rfl
+  | inlineCode => rfl
+  | lineBreak => exact findOne_lineBreak s h.nl
+  | math => cases ht
+  | githubWiki => cases ht
+  | xwikiMacroStart => cases ht
+  | xwikiMacroEnd => cases ht
+
+end Mistletoe.EmphHtml
+
+/-! ## G. `tokenize_inner` on a text whose candidates are nested emphasis matches and escape sequences -/
+
+namespace Mistletoe.EmphHtml
+open Mistletoe Mistletoe.Span Mistletoe.Inline Mistletoe.Html Mistletoe.Escape Mistletoe.Spec.EmphasisHtml
+open Mistletoe.Core Mistletoe.InertInline Mistletoe.RefResolve Mistletoe.InlineScan
+
+/-- the candidate `tokenize_inner` builds from the `i`-th element of `find_tokens`' result -/
+def candF (types : List STok) (f : Found) (i : Nat) : Cand :=
+  { start := f.start, stop := f.stop, pstart := f.pstart, pend := f.pend, prec := prec f.cls,
+    inner := parseInner f.cls, cls := clsIndex types f.cls, ord := i }
+
+def candsF (types : List STok) (found : List Found) : List Cand := found.zipIdx.map (fun p => candF types p.1 p.2)
+
+theorem candsF_length (types : List STok) (found : List Found) : (candsF types found).length = found.length := by
+  simp [candsF]
+
+theorem candsF_get (types : List STok) (found : List Found) (i : Nat) (hi : i < (candsF types found).length) :
+    (candsF types found)[i] = candF types (found[i]'(by rw [candsF_length] at hi; exact hi)) i := by
+  simp [candsF]
+
+theorem tokenizeInner_found (s : Str) (types : List STok) (fn : Footnotes.Table) (found : List Found)
+    (h : findAll s types fn = .ok found) :
+    tokenizeInner types fn s = .ok (builds s found (Span.tokenize (candsF types found) s.length)) := by
+  unfold tokenizeInner
+  rw [h]
+  simp only [Res.ok.injEq]
+  congr 2
+
+/-- what `EscapeSequence.find` returns for the match at `i` -/
+def escFound (i : Nat) : Found := ofRe .escapeSequence false (escM i)
+
+section
+variable (s : Str) (ms : List CoreM) (es : List Nat) (skip : Nat → Bool)
+  (hW : ∀ m ∈ ms, m.start < m.ts ∧ m.ts < m.te ∧ m.te < m.stop ∧ m.stop ≤ s.length)
+  (hN : ms.Pairwise (fun a b => a.stop ≤ b.start ∨ b.stop ≤ a.start ∨ (b.ts ≤ a.start ∧ a.stop ≤ b.te)))
+  (hK : ∀ m ∈ ms, m.kind = .strong ∨ m.kind = .emphasis)
+  (hE : es.Pairwise (fun i j => i + 2 ≤ j))
+  (hEs : ∀ i ∈ es, i + 2 ≤ s.length ∧ skip i = true ∧ skip (i + 1) = false)
+  (hX : ∀ m ∈ ms, ∀ i ∈ es, ∀ k, k = i ∨ k = i + 1 → ¬ ((m.start ≤ k ∧ k < m.ts) ∨ (m.te ≤ k ∧ k < m.stop)))
+  (hsk : ∀ i, i < s.length → skip i = true → i ∈ es)
+
+/-- the two lists of candidates form a laminar family -/
+def LamF (types : List STok) (f g : Found) : Prop := ∀ i j, Lam (candF types f i) (candF types g j)
+
+include hW hN in
+theorem lamF_core (types : List STok) : (ms.map foundOf).Pairwise (LamF types) := by
+  rw [List.pairwise_map]
+  apply hN.imp_of_mem
+  intro a b ha hb hab i j
+  have wa := hW a ha
+  have wb := hW b hb
+  unfold Lam
+  simp only [candF, foundOf, parseInner, true_and]
+  omega
+
+include hE in
+theorem lamF_esc (types : List STok) : (es.map escFound).Pairwise (LamF types) := by
+  rw [List.pairwise_map]
+  apply hE.imp
+  intro a b hab i j
+  unfold Lam
+  simp only [candF, escFound, ofRe, escM, Bool.false_eq_true, if_false]
+  omega
+
+include hW hX in
+theorem lamF_cross (types : List STok) : ∀ f ∈ ms.map foundOf, ∀ g ∈ es.map escFound, LamF types f g := by
+  intro f hf g hg i j
+  obtain ⟨m, hm, rfl⟩ := List.mem_map.1 hf
+  obtain ⟨e, he, rfl⟩ := List.mem_map.1 hg
+  have wm := hW m hm
+  have x0 := hX m hm e he e (Or.inl rfl)
+  have x1 := hX m hm e he (e + 1) (Or.inr rfl)
+  unfold Lam
+  simp only [candF, foundOf, escFound, ofRe, escM, Bool.false_eq_true, if_false, parseInner, true_and]
+  omega
+
+theorem LamF.symm {types : List STok} {f g : Found} (h : LamF types f g) : LamF types g f :=
+  fun i j => (h j i).symm
+
+include hW hN hE hX in
+theorem cands_lamF (types : List STok) (found : List Found)
+    (hf : found = ms.map foundOf ++ es.map escFound ∨ found = es.map escFound ++ ms.map foundOf) :
+    (candsF types found).Pairwise Lam := by
+  have hp : found.Pairwise (LamF types) := by
+    rcases hf with rfl | rfl
+    · rw [List.pairwise_append]
+      exact ⟨lamF_core s ms hW hN types, lamF_esc es hE types, lamF_cross s ms es hW hX types⟩
+    · rw [List.pairwise_append]
+      exact ⟨lamF_esc es hE types, lamF_core s ms hW hN types,
+        fun g hg f hf => (lamF_cross s ms es hW hX types f hf g hg).symm⟩
+  have hP := List.pairwise_iff_getElem.1 hp
+  rw [List.pairwise_iff_getElem]
+  intro i j hi hj hij
+  rw [candsF_get, candsF_get]
+  exact hP i j (by rw [candsF_length] at hi; exact hi) (by rw [candsF_length] at hj; exact hj) hij i j
+
+theorem found_cases (found : List Found)
+    (hf : found = ms.map foundOf ++ es.map escFound ∨ found = es.map escFound ++ ms.map foundOf) :
+    ∀ f, f ∈ found ↔ (∃ m ∈ ms, f = foundOf m) ∨ (∃ i ∈ es, f = escFound i) := by
+  intro f
+  rcases hf with rfl | rfl
+  · simp only [List.mem_append, List.mem_map]
+    constructor
+    · rintro (⟨m, hm, rfl⟩ | ⟨i, hi, rfl⟩)
+      · exact Or.inl ⟨m, hm, rfl⟩
+      · exact Or.inr ⟨i, hi, rfl⟩
+    · rintro (⟨m, hm, rfl⟩ | ⟨i, hi, rfl⟩)
+      · exact Or.inl ⟨m, hm, rfl⟩
+      · exact Or.inr ⟨i, hi, rfl⟩
+  · simp only [List.mem_append, List.mem_map]
+    constructor
+    · rintro (⟨i, hi, rfl⟩ | ⟨m, hm, rfl⟩)
+      · exact Or.inr ⟨i, hi, rfl⟩
+      · exact Or.inl ⟨m, hm, rfl⟩
+    · rintro (⟨m, hm, rfl⟩ | ⟨i, hi, rfl⟩)
+      · exact Or.inr ⟨m, hm, rfl⟩
+      · exact Or.inl ⟨i, hi, rfl⟩
+
+include hW hEs in
+theorem candsF_wf (types : List STok) (found : List Found)
+    (hf : ∀ f, f ∈ found ↔ (∃ m ∈ ms, f = foundOf m) ∨ (∃ i ∈ es, f = escFound i)) :
+    ∀ c ∈ candsF types found, CandWF c ∧ c.stop ≤ s.length := by
+  intro c hc
+  obtain ⟨k, hk, rfl⟩ := List.mem_iff_getElem.1 hc
+  rw [candsF_get]
+  have hk' : k < found.length := by rw [candsF_length] at hk; exact hk
+  rcases (hf found[k]).1 (List.getElem_mem hk') with ⟨m, hm, e⟩ | ⟨i, hi, e⟩
+  · rw [e]
+    have := hW m hm
+    simp only [CandWF, candF, foundOf]; omega
+  · rw [e]
+    have := hEs i hi
+    simp only [CandWF, candF, escFound, ofRe, escM, Bool.false_eq_true, if_false]; omega
+
+include hK hEs in
+theorem candsF_nodeOK (types : List STok) (found : List Found)
+    (hf : ∀ f, f ∈ found ↔ (∃ m ∈ ms, f = foundOf m) ∨ (∃ i ∈ es, f = escFound i)) :
+    ∀ c ∈ candsF types found, NodeOK s found (ms.map tup) skip c := by
+  intro c hc
+  obtain ⟨k, hk, rfl⟩ := List.mem_iff_getElem.1 hc
+  rw [candsF_get]
+  have hk' : k < found.length := by rw [candsF_length] at hk; exact hk
+  have hfk : found[(candF types found[k] k).ord]? = some found[k] := by simp [candF, hk']
+  rcases (hf found[k]).1 (List.getElem_mem hk') with ⟨m, hm, e⟩ | ⟨i, hi, e⟩
+  · left
+    refine ⟨by rw [e]; rfl, m.kind == .strong, m.delimiter, ?_, ?_⟩
+    · rw [e]; exact List.mem_map.2 ⟨m, hm, rfl⟩
+    · intro kids
+      simp only [build, hfk]
+      rw [e]
+      simp only [foundOf]
+      rcases hK m hm with h | h <;> simp [h]
+  · right
+    have := hEs i hi
+    refine ⟨by rw [e]; rfl, by rw [e]; rfl, by rw [e]; rfl, by rw [e]; rfl, ?_, ?_, ?_⟩
+    · rw [e]; exact this.2.1
+    · rw [e]; exact this.2.2
+    · intro kids
+      simp only [build, hfk]
+      rw [e]
+      rfl
+
+include hsk in
+theorem candsF_cover (types : List STok) (found : List Found)
+    (hf : ∀ f, f ∈ found ↔ (∃ m ∈ ms, f = foundOf m) ∨ (∃ i ∈ es, f = escFound i)) :
+    Cover (ms.map tup) skip (candsF types found) 0 s.length := by
+  refine ⟨?_, ?_⟩
+  · intro p hp
+    obtain ⟨m, hm, rfl⟩ := List.mem_map.1 hp
+    left
+    obtain ⟨k, hk, e⟩ := List.mem_iff_getElem.1 ((hf (foundOf m)).2 (Or.inl ⟨m, hm, rfl⟩))
+    refine ⟨(candsF types found)[k]'(by rw [candsF_length]; exact hk), List.getElem_mem _, ?_⟩
+    rw [candsF_get, e]
+    simp [candF, foundOf, tup]
+  · intro i _ h2 hs
+    obtain ⟨k, hk, e⟩ := List.mem_iff_getElem.1 ((hf (escFound i)).2 (Or.inr ⟨i, hsk i h2 hs, rfl⟩))
+    refine ⟨(candsF types found)[k]'(by rw [candsF_length]; exact hk), List.getElem_mem _, ?_⟩
+    rw [candsF_get, e]
+    rfl
+
+include hW hN hK hE hEs hX hsk in
+/-- the HTML of the tokens built from nested emphasis matches and escape sequences is the walk over the spans that drops
+    the escaping backslashes -/
+theorem render_found (q : Quotes) (types : List STok) (hamp : ∀ c ∈ s, c ≠ '&') (found : List Found)
+    (hf : found = ms.map foundOf ++ es.map escFound ∨ found = es.map escFound ++ ms.map foundOf) :
+    flat (renderInlines q (builds s found (Span.tokenize (candsF types found) s.length))) =
+      htmlOf (escChar q.dq q.sq) (ms.map tup) skip s := by
+  have hfc := found_cases ms es found hf
+  have hwf := candsF_wf s ms es skip hW hEs types found hfc
+  have hok := resolve_ok s.length (candsF types found) hwf
+  have hnodes := resolve_nodes (candsF types found) (cands_lamF s ms es hW hN hE hX types found hf)
+    (fun c hc => (hwf c hc).1)
+  have hcov := candsF_cover s ms es skip hsk types found hfc
+  have := render_rev (q := q) (found := found) (skip := skip) (ctx_ms s ms hW hN) hamp
+    (resolve (candsF types found)).reverse 0 s.length
+    hok (Nat.zero_le _) (Nat.le_refl _)
+    (fun c hc => candsF_nodeOK s ms es skip hK hEs types found hfc c ((hnodes c).1 hc))
+    (by
+      refine ⟨?_, ?_⟩
+      · intro p hp
+        rcases hcov.1 p hp with ⟨c, hc, h⟩ | h
+        · exact Or.inl ⟨c, (hnodes c).2 hc, h⟩
+        · exact Or.inr h
+      · intro i h1 h2 hs
+        obtain ⟨c, hc, h⟩ := hcov.2 i h1 h2 hs
+        exact ⟨c, (hnodes c).2 hc, h⟩)
+  unfold R at this
+  unfold Span.tokenize
+  rw [this]
+  simp [walk, htmlOf]
+
+end
+
+end Mistletoe.EmphHtml
+
+/-! ## H. The theorem for texts without backslash -/
 
 namespace Mistletoe.EmphHtml
 open Mistletoe Mistletoe.Py Mistletoe.Span Mistletoe.Inline Mistletoe.Html Mistletoe.Escape Mistletoe.Spec.EmphasisHtml
@@ -874,7 +1678,147 @@ theorem emph_html_is_spec (types : List STok) (fn : Footnotes.Table) (s : Str)
   rw [e]
   rfl
 
-/-! ### document level -/
+end Mistletoe.EmphHtml
+
+/-! ## I. The theorem with backslash escapes -/
+
+namespace Mistletoe.EmphHtml
+open Mistletoe Mistletoe.Py Mistletoe.Span Mistletoe.Inline Mistletoe.Html Mistletoe.Escape Mistletoe.Spec.EmphasisHtml
+open Mistletoe.Core Mistletoe.InertInline Mistletoe.RefResolve Mistletoe.InlineScan Mistletoe.Spec.EmphasisEsc
+
+theorem flatMap_two {α β} [DecidableEq α] (f : α → List β) (x y : α) (hxy : x ≠ y) : ∀ (l : List α),
+    (∀ t ∈ l, t ≠ x → t ≠ y → f t = []) → l.count x = 1 → l.count y = 1 →
+    l.flatMap f = f x ++ f y ∨ l.flatMap f = f y ++ f x
+  | [], _, hx, _ => by simp at hx
+  | t :: l, h, hx, hy => by
+    have hmem : ∀ {z : α}, l.count z = 0 → ∀ t' ∈ l, t' ≠ z := by
+      intro z hz t' ht' e
+      subst e
+      have := List.count_pos_iff.2 ht'
+      omega
+    by_cases htx : t = x
+    · subst htx
+      have hx0 : l.count t = 0 := by simpa [List.count_cons] using hx
+      have hy1 : l.count y = 1 := by
+        have : (t == y) = false := by simpa using hxy
+        simpa [List.count_cons, this] using hy
+      left
+      rw [List.flatMap_cons, flatMap_one f y l (fun t' ht' hne => h t' (List.mem_cons_of_mem _ ht') (hmem hx0 t' ht') hne) hy1]
+    · by_cases hty : t = y
+      · subst hty
+        have hy0 : l.count t = 0 := by simpa [List.count_cons] using hy
+        have hx1 : l.count x = 1 := by
+          have : (t == x) = false := by simpa using htx
+          simpa [List.count_cons, this] using hx
+        right
+        rw [List.flatMap_cons, flatMap_one f x l (fun t' ht' hne => h t' (List.mem_cons_of_mem _ ht') hne (hmem hy0 t' ht')) hx1]
+      · have hx1 : l.count x = 1 := by
+          have : (t == x) = false := by simpa using htx
+          simpa [List.count_cons, this] using hx
+        have hy1 : l.count y = 1 := by
+          have : (t == y) = false := by simpa using hty
+          simpa [List.count_cons, this] using hy
+        rw [List.flatMap_cons, h t (by simp) htx hty, List.nil_append]
+        exact flatMap_two f x y hxy l (fun t' ht' => h t' (List.mem_cons_of_mem _ ht')) hx1 hy1
+
+/-- `find_tokens` on a text in which only `EscapeSequence` and `CoreTokens` fire -/
+theorem findAll_esc (s : Str) (types : List STok) (fn : Footnotes.Table) (hs : ScanEsc s)
+    (ht : ∀ t ∈ types, inertClass t = true) (hc : types.count .coreTokens = 1) (he : types.count .escapeSequence = 1)
+    (ms : List CoreM) (h : findCoreTokens s fn = .ok (ms, [])) :
+    ∃ found, findAll s types fn = .ok found ∧
+      (found = ms.map foundOf ++ (escPos 0 s).map escFound ∨ found = (escPos 0 s).map escFound ++ ms.map foundOf) := by
+  unfold findAll
+  have : types.contains .coreTokens = true := by
+    rw [List.contains_iff_mem]
+    exact List.count_pos_iff.1 (by omega)
+  simp only [this, if_true, h]
+  refine ⟨_, rfl, ?_⟩
+  have h1 : findOne s ms [] .coreTokens = ms.map foundOf := rfl
+  have h2 : findOne s ms [] .escapeSequence = (escPos 0 s).map escFound := by
+    simp only [findOne, findIter_escape, List.map_map]
+    rfl
+  rw [← h1, ← h2]
+  apply flatMap_two (findOne s ms []) .coreTokens .escapeSequence (by decide) types _ hc he
+  intro t htm n1 n2
+  rw [findOne_other s ms t n1]
+  exact findOne_scanEsc s hs t (ht t htm) n2
+
+theorem plainEsc_facts (s : Str) (hp : plainEsc s = true) : ∀ c ∈ s, c ≠ '<' ∧ c ≠ '&' := by
+  intro c hc
+  simp only [plainEsc, List.all_eq_true] at hp
+  have := hp c hc
+  simp only [plainEscChar, Bool.and_eq_true, bne_iff_ne, ne_eq] at this
+  exact ⟨this.1.2, this.2⟩
+
+/-- **C06, output level, with backslash escapes.**  As `emph_html_is_spec`, for texts that may contain backslashes
+    (`plainEsc`: no backquote, brackets, `<`, `&`), against the specification with escapes (`specHtmlEscQ`: spans of
+    `Spec.EmphasisEsc.spansEsc`; a backslash that escapes the next character is dropped, the escaped character is
+    literal text; other backslashes are literal).  The token list must hold `EscapeSequence` once, like the HTML
+    renderer's. -/
+theorem emph_html_is_spec_esc (types : List STok) (fn : Footnotes.Table) (s : Str)
+    (hp : plainEsc s = true) (hw : EmphRefine.stdWs s = true) (hnl : '\n' ∉ s) (htl : tildeOk s = true)
+    (ht : ∀ t ∈ types, inertClass t = true) (hc : types.count .coreTokens = 1)
+    (he : types.count .escapeSequence = 1) :
+    ∃ ks, tokenizeInner types fn s = .ok ks ∧
+      ∀ q : Quotes, flat (renderInlines q ks) = specHtmlEscQ q.dq q.sq s := by
+  obtain ⟨ms, h1, h2, h3, h4⟩ := Props.C06.C06_emphasis_is_spec_esc_partial s fn hp ((EmphRefine.stdWs_iff s).1 hw)
+  have hpf := plainEsc_facts s hp
+  have hs : ScanEsc s := ⟨fun hm => (hpf _ hm).1 rfl, htl, hnl⟩
+  obtain ⟨found, hfa, hfound⟩ := findAll_esc s types fn hs ht hc he ms h1
+  refine ⟨_, tokenizeInner_found s types fn found hfa, ?_⟩
+  intro q
+  have hW : ∀ m ∈ ms, m.start < m.ts ∧ m.ts < m.te ∧ m.te < m.stop ∧ m.stop ≤ s.length := by
+    intro m hm
+    have := Props.C06.C06_emphasis_wellformed s fn ms [] h1 m hm (h3 m hm)
+    exact ⟨this.1, this.2.1, this.2.2.1, this.2.2.2.1⟩
+  have hN : ms.Pairwise (fun a b => a.stop ≤ b.start ∨ b.stop ≤ a.start ∨ (b.ts ≤ a.start ∧ a.stop ≤ b.te)) :=
+    (Props.C06.C06_emphasis_nested s fn ms [] h1).imp_of_mem (fun ha hb hab => hab (h3 _ ha) (h3 _ hb))
+  have hmarks := escPos_marks 0 s
+  have hEs : ∀ i ∈ escPos 0 s, i + 2 ≤ s.length ∧ escapedAt s (i + 1) = true ∧ escapedAt s (i + 1 + 1) = false := by
+    intro i hi
+    have h5 := escPos_spec 0 s i hi
+    refine ⟨by omega, ?_, ?_⟩
+    · exact (hmarks i).2 (by simpa using hi)
+    · cases h6 : escapedAt s (i + 1 + 1) with
+      | false => rfl
+      | true =>
+        have := (hmarks (i + 1)).1 h6
+        simp only [Nat.zero_add] at this
+        rcases pairwise_mem _ (escPos_gap 0 s) i hi (i + 1) this with h | h | h <;> omega
+  have hX : ∀ m ∈ ms, ∀ i ∈ escPos 0 s, ∀ k, k = i ∨ k = i + 1 →
+      ¬ ((m.start ≤ k ∧ k < m.ts) ∨ (m.te ≤ k ∧ k < m.stop)) := by
+    intro m hm i hi k hk hd
+    rcases hk with rfl | rfl
+    · have h5 := (escPos_spec 0 s k hi).1
+      simp only [Nat.sub_zero] at h5
+      obtain ⟨hst, ho, hcl⟩ := Props.C06.C06_emphasis_delimiters s fn ms [] h1 m hm (h3 m hm)
+      have : s[k]? = some m.delimiter := by
+        rcases hd with hd | hd
+        · exact ho k hd.1 hd.2
+        · exact hcl k hd.1 hd.2
+      rw [h5] at this
+      rcases hst with e | e <;> rw [e] at this <;> cases this
+    · rw [h2] at hm
+      obtain ⟨x, hx, rfl⟩ := List.mem_map.1 hm
+      have := emphasisEsc_unescaped s x hx (i + 1) (by simpa [EmphRefine.toCoreM] using hd)
+      rw [(hEs i hi).2.1] at this
+      cases this
+  have hsk : ∀ i, i < s.length → escapedAt s (i + 1) = true → i ∈ escPos 0 s := by
+    intro i _ h5
+    simpa using (hmarks i).1 h5
+  rw [render_found s ms (escPos 0 s) (fun i => escapedAt s (i + 1)) hW hN h3 (escPos_gap 0 s) hEs hX hsk q types
+    (fun c hc => (hpf c hc).2) found hfound]
+  have e : ms.map tup = Spec.EmphasisEsc.spansEsc s := h4
+  rw [e]
+  rfl
+
+end Mistletoe.EmphHtml
+
+/-! ## J. Document level -/
+
+namespace Mistletoe.EmphHtml
+open Mistletoe Mistletoe.Py Mistletoe.Span Mistletoe.Inline Mistletoe.Html Mistletoe.Escape Mistletoe.Spec.EmphasisHtml
+open Mistletoe.Core Mistletoe.InertInline Mistletoe.RefResolve
 
 theorem lstrip_suffix : ∀ (s : Str), ∃ u, s = u ++ lstrip s
   | [] => ⟨[], rfl⟩
@@ -914,21 +1858,6 @@ theorem strip_snoc_nl (s : Str) (hb : isBlank s = false) : strip (s ++ ['\n']) =
   have : pyIsSpace '\n' = true := by decide
   simp [this]
 
-theorem tildeOk_suffix : ∀ (u x : Str), tildeOk (u ++ x) = true → tildeOk x = true
-  | [], _, h => h
-  | c :: u, x, h => by
-    simp only [List.cons_append, tildeOk, Bool.and_eq_true] at h
-    exact tildeOk_suffix u x h.2
-
-theorem tildeOk_prefix : ∀ (x v : Str), tildeOk (x ++ v) = true → tildeOk x = true
-  | [], _, _ => rfl
-  | c :: x, v, h => by
-    simp only [List.cons_append, tildeOk, Bool.and_eq_true] at h ⊢
-    refine ⟨?_, tildeOk_prefix x v h.2⟩
-    cases x with
-    | nil => simp
-    | cons d x => simpa using h.1
-
 theorem render_paragraph (o : Opts) (ks : List Mistletoe.Inline) (ln : Nat) (fn : List (Str × Str × Str)) :
     render o { kids := [.paragraph ks ln], footnotes := fn } =
       "<p>".toList ++ flat (renderInlines o.q ks) ++ "</p>\n".toList := by
@@ -944,6 +1873,73 @@ theorem render_paragraph (o : Opts) (ks : List Mistletoe.Inline) (ln : Nat) (fn 
   rw [render, hd, flat_append, hp]
   simp [flat, flatEv, nl]
 
+/-- the hypotheses on the characters of `s` pass to `s.strip()` -/
+theorem strip_hyps (s : Str) (P : Char → Bool) (hP : s.all P = true) (htl : tildeOk s = true)
+    (h1 : oneLine (s ++ ['\n']) = true) :
+    (strip s).all P = true ∧ tildeOk (strip s) = true ∧ '\n' ∉ strip s := by
+  obtain ⟨u, v, huv⟩ := strip_infix s
+  have hmem : ∀ c ∈ strip s, c ∈ s := by
+    intro c hc; rw [huv]; simp [hc]
+  refine ⟨?_, ?_, ?_⟩
+  · simp only [List.all_eq_true] at hP ⊢
+    exact fun c hc => hP c (hmem c hc)
+  · rw [huv, List.append_assoc] at htl
+    exact tildeOk_prefix _ v (tildeOk_suffix u _ htl)
+  · intro hm
+    have hm' := hmem _ hm
+    simp only [oneLine, Bool.and_eq_true, List.dropLast_concat, List.all_eq_true] at h1
+    have := h1.2 _ hm'
+    revert this; decide
+
+/-- the span-token list the HTML renderer installs holds `EscapeSequence` once -/
+theorem html_escape_once : ∀ cfg, Config.html = some cfg → cfg.span.count .escapeSequence = 1 := by
+  have h : ∀ cfg, Config.html = some cfg → (cfg.span.count .escapeSequence == 1) = true := by decide +kernel
+  intro cfg hc
+  simpa using h cfg hc
+
+open Mistletoe.Props.C14 in
+/-- `Document(s + "\n")` under the HTML renderer, for a line that is one paragraph line: `<p>`, the HTML of the inline
+    phase on the stripped text, `</p>` -/
+theorem paragraph_html (o : Opts) (gas : Nat) (s : Str) (out : Str)
+    (h1 : oneLine (s ++ ['\n']) = true) (hl : inertLine (s ++ ['\n']) = true)
+    (hin : ∀ cfg, Config.html = some cfg → ∃ ks, tokenizeInner cfg.span (Document.footnotesOf ({} : Block.St).defs) (strip s) = .ok ks ∧
+      flat (renderInlines o.q ks) = out) :
+    Config.renderHtml o (gas + 14) (s ++ ['\n']) = some ("<p>".toList ++ out ++ "</p>\n".toList) := by
+  cases hcfg : Config.html with
+  | none =>
+    have := C14_config_current.1
+    rw [hcfg] at this
+    cases this
+  | some cfg =>
+    have hbt : cfg.block.types = defaultTypes := by
+      have := C14_config_current.1
+      rw [hcfg] at this
+      simpa using this
+    have hpar : Block.BTok.paragraph ∈ cfg.block.types := (C14_config_covered cfg (Or.inl hcfg)).1
+    have hnb : isBlank (s ++ ['\n']) = false := (inertLine_quiet _ hl).nb
+    have hnbs : isBlank s = false := by
+      have : pyIsSpace '\n' = true := by decide
+      simpa [isBlank, this] using hnb
+    obtain ⟨ks, hk1, hk2⟩ := hin cfg hcfg
+    have hparse : Document.parse cfg (gas + 14) (s ++ ['\n']) =
+        .ok { kids := [.paragraph ks 1], footnotes := Document.footnotesOf ({} : Block.St).defs } := by
+      have := parse_lines cfg (gas + 14) [s ++ ['\n']] (by simpa using h1)
+      simp only [List.flatten_cons, List.flatten_nil, List.append_nil] at this
+      rw [this]
+      unfold Document.parseLines
+      have hg : gas + 14 = gas + (cfg.block.types.length + 4) := by rw [hbt]; rfl
+      rw [hg, C14_block_phase cfg.block hpar [s ++ ['\n']] (by simp) (by simpa using hl) gas]
+      simp only
+      have hin' : Document.inl cfg (Document.footnotesOf ({} : Block.St).defs) (strip ([s ++ ['\n']].map lstrip).flatten) = .ok ks := by
+        unfold Document.inl
+        rw [paragraph_content_one, strip_snoc_nl s hnbs]
+        exact hk1
+      simp only [Document.mkBlocks, Document.mkBlock, hin']
+    unfold Config.renderHtml
+    rw [hcfg]
+    simp only [hparse]
+    rw [render_paragraph, hk2]
+
 open Mistletoe.Props.C14 in
 /-- **C06 at document level.**  `s` is a text of the alphabet of `emph_html_is_spec` (without `~~`); the line `s ++ "\n"`
     holds no other line separator (`oneLine`: what `str.splitlines` keeps together; this also excludes a newline inside
@@ -956,60 +1952,28 @@ theorem C06_paragraph_html_is_spec_partial (o : Opts) (gas : Nat) (s : Str)
     (h1 : oneLine (s ++ ['\n']) = true) (hl : inertLine (s ++ ['\n']) = true) :
     Config.renderHtml o (gas + 14) (s ++ ['\n']) =
       some ("<p>".toList ++ specHtmlQ o.dq o.sq (strip s) ++ "</p>\n".toList) := by
-  cases hcfg : Config.html with
-  | none =>
-    have := C14_config_current.1
-    rw [hcfg] at this
-    cases this
-  | some cfg =>
-    have hbt : cfg.block.types = defaultTypes := by
-      have := C14_config_current.1
-      rw [hcfg] at this
-      simpa using this
-    obtain ⟨ht, hc⟩ := C07_config_covered cfg (Or.inl hcfg)
-    have hpar : Block.BTok.paragraph ∈ cfg.block.types := (C14_config_covered cfg (Or.inl hcfg)).1
-    have hnb : isBlank (s ++ ['\n']) = false := (inertLine_quiet _ hl).nb
-    have hnbs : isBlank s = false := by
-      have : pyIsSpace '\n' = true := by decide
-      simpa [isBlank, this] using hnb
-    -- the stripped text inherits the hypotheses
-    obtain ⟨u, v, huv⟩ := strip_infix s
-    have hmem : ∀ c ∈ strip s, c ∈ s := by
-      intro c hc; rw [huv]; simp [hc]
-    have hp' : Spec.Emphasis.plain (strip s) = true := by
-      simp only [Spec.Emphasis.plain, List.all_eq_true] at hp ⊢
-      exact fun c hc => hp c (hmem c hc)
-    have hw' : EmphRefine.stdWs (strip s) = true := by
-      simp only [EmphRefine.stdWs, List.all_eq_true] at hw ⊢
-      exact fun c hc => hw c (hmem c hc)
-    have hnl' : '\n' ∉ strip s := by
-      intro hm
-      have hm' := hmem _ hm
-      simp only [oneLine, Bool.and_eq_true, List.dropLast_concat, List.all_eq_true] at h1
-      have := h1.2 _ hm'
-      revert this; decide
-    have htl' : tildeOk (strip s) = true := by
-      rw [huv, List.append_assoc] at htl
-      exact tildeOk_prefix _ v (tildeOk_suffix u _ htl)
-    obtain ⟨ks, hk1, hk2⟩ := emph_html_is_spec cfg.span (Document.footnotesOf ({} : Block.St).defs) (strip s) hp' hw' hnl' htl' ht hc
-    have hparse : Document.parse cfg (gas + 14) (s ++ ['\n']) = .ok { kids := [.paragraph ks 1], footnotes := Document.footnotesOf ({} : Block.St).defs } := by
-      have := parse_lines cfg (gas + 14) [s ++ ['\n']] (by simpa using h1)
-      simp only [List.flatten_cons, List.flatten_nil, List.append_nil] at this
-      rw [this]
-      unfold Document.parseLines
-      have hg : gas + 14 = gas + (cfg.block.types.length + 4) := by rw [hbt]; rfl
-      rw [hg, C14_block_phase cfg.block hpar [s ++ ['\n']] (by simp) (by simpa using hl) gas]
-      simp only
-      have hin : Document.inl cfg (Document.footnotesOf ({} : Block.St).defs) (strip ([s ++ ['\n']].map lstrip).flatten) = .ok ks := by
-        unfold Document.inl
-        rw [paragraph_content_one, strip_snoc_nl s hnbs]
-        exact hk1
-      simp only [Document.mkBlocks, Document.mkBlock, hin]
-    unfold Config.renderHtml
-    rw [hcfg]
-    simp only [hparse]
-    rw [render_paragraph, hk2]
-    rfl
+  apply paragraph_html o gas s _ h1 hl
+  intro cfg hcfg
+  obtain ⟨ht, hc⟩ := C07_config_covered cfg (Or.inl hcfg)
+  obtain ⟨hp', htl', hnl'⟩ := strip_hyps s _ hp htl h1
+  obtain ⟨hw', _, _⟩ := strip_hyps s _ hw htl h1
+  obtain ⟨ks, hk1, hk2⟩ := emph_html_is_spec cfg.span _ (strip s) hp' hw' hnl' htl' ht hc
+  exact ⟨ks, hk1, hk2 o.q⟩
+
+open Mistletoe.Props.C14 in
+/-- **… with backslash escapes** (`plainEsc`), against `specHtmlEscQ` -/
+theorem C06_paragraph_html_is_spec_esc_partial (o : Opts) (gas : Nat) (s : Str)
+    (hp : Spec.EmphasisEsc.plainEsc s = true) (hw : EmphRefine.stdWs s = true) (htl : tildeOk s = true)
+    (h1 : oneLine (s ++ ['\n']) = true) (hl : inertLine (s ++ ['\n']) = true) :
+    Config.renderHtml o (gas + 14) (s ++ ['\n']) =
+      some ("<p>".toList ++ specHtmlEscQ o.dq o.sq (strip s) ++ "</p>\n".toList) := by
+  apply paragraph_html o gas s _ h1 hl
+  intro cfg hcfg
+  obtain ⟨ht, hc⟩ := C07_config_covered cfg (Or.inl hcfg)
+  obtain ⟨hp', htl', hnl'⟩ := strip_hyps s _ hp htl h1
+  obtain ⟨hw', _, _⟩ := strip_hyps s _ hw htl h1
+  obtain ⟨ks, hk1, hk2⟩ := emph_html_is_spec_esc cfg.span _ (strip s) hp' hw' hnl' htl' ht hc (html_escape_once cfg hcfg)
+  exact ⟨ks, hk1, hk2 o.q⟩
 
 end Mistletoe.EmphHtml
 
@@ -1087,6 +2051,60 @@ example : Config.renderHtml {} 14 (L "  x *a **b** c* _d_  \n") = some (L "<p>x 
     (by decide +kernel) (by decide +kernel)
   rw [show (0 + 14 = 14) from rfl] at this
   rw [show L "  x *a **b** c* _d_  \n" = L "  x *a **b** c* _d_  " ++ ['\n'] from by decide, this]
+  decide +kernel
+
+/-! ### with backslash escapes
+
+  `mistletoe.markdown` on these texts gives `<p>` + the string + `</p>`. -/
+
+/-- the instance of `emph_html_is_spec_esc` for the HTML renderer's token list and default options -/
+theorem instEsc (s : Str) (hp : Spec.EmphasisEsc.plainEsc s = true) (hw : EmphRefine.stdWs s = true)
+    (hnl : ('\n' ∈ s) = False) (htl : tildeOk s = true) (out : Str) (ho : specHtmlEsc s = out) :
+    ∃ ks, tokenizeInner htmlSpanTypes [] s = .ok ks ∧ flat (renderInlines ⟨false, false⟩ ks) = out := by
+  obtain ⟨ks, h1, h2⟩ := emph_html_is_spec_esc htmlSpanTypes [] s hp hw (by rw [hnl]; exact id) htl htmlSpanTypes_inert
+    (by decide) (by decide)
+  exact ⟨ks, h1, by rw [h2]; exact ho⟩
+
+/-- example 14 (first line), 15, 436, 439 of the 0.30 test suite -/
+example : ∃ ks, tokenizeInner htmlSpanTypes [] (L "\\*not emphasized*") = .ok ks ∧
+    flat (renderInlines ⟨false, false⟩ ks) = L "*not emphasized*" :=
+  instEsc _ (by decide +kernel) (by decide +kernel) (by decide +kernel) (by decide +kernel) _ (by decide +kernel)
+example : inlineHtml (L "\\*not emphasized*") = .ok (L "*not emphasized*") := by decide +kernel
+
+example : ∃ ks, tokenizeInner htmlSpanTypes [] (L "\\\\*emphasis*") = .ok ks ∧
+    flat (renderInlines ⟨false, false⟩ ks) = L "\\<em>emphasis</em>" :=
+  instEsc _ (by decide +kernel) (by decide +kernel) (by decide +kernel) (by decide +kernel) _ (by decide +kernel)
+example : inlineHtml (L "\\\\*emphasis*") = .ok (L "\\<em>emphasis</em>") := by decide +kernel
+
+example : ∃ ks, tokenizeInner htmlSpanTypes [] (L "foo *\\**") = .ok ks ∧
+    flat (renderInlines ⟨false, false⟩ ks) = L "foo <em>*</em>" :=
+  instEsc _ (by decide +kernel) (by decide +kernel) (by decide +kernel) (by decide +kernel) _ (by decide +kernel)
+example : inlineHtml (L "foo *\\**") = .ok (L "foo <em>*</em>") := by decide +kernel
+
+example : ∃ ks, tokenizeInner htmlSpanTypes [] (L "foo **\\***") = .ok ks ∧
+    flat (renderInlines ⟨false, false⟩ ks) = L "foo <strong>*</strong>" :=
+  instEsc _ (by decide +kernel) (by decide +kernel) (by decide +kernel) (by decide +kernel) _ (by decide +kernel)
+example : inlineHtml (L "foo **\\***") = .ok (L "foo <strong>*</strong>") := by decide +kernel
+
+/-- escapes inside nested emphasis, an escaped backslash, a literal backslash before a letter, an escaped `>`, a final
+    backslash -/
+example : ∃ ks, tokenizeInner htmlSpanTypes [] (L "_x \\_ **y \\* z** \\\\_ \\a*b\\>*\\") = .ok ks ∧
+    flat (renderInlines ⟨false, false⟩ ks) = L "<em>x _ <strong>y * z</strong> \\</em> \\a<em>b&gt;</em>\\" :=
+  instEsc _ (by decide +kernel) (by decide +kernel) (by decide +kernel) (by decide +kernel) _ (by decide +kernel)
+example : inlineHtml (L "_x \\_ **y \\* z** \\\\_ \\a*b\\>*\\") =
+    .ok (L "<em>x _ <strong>y * z</strong> \\</em> \\a<em>b&gt;</em>\\") := by decide +kernel
+
+/-- on a text without backslash the two specifications give the same HTML -/
+example : specHtmlEsc (L "***a** b*") = specHtml (L "***a** b*") := by decide +kernel
+
+/-- document level -/
+example : Config.renderHtml {} 14 (L "**a\\*b** \\\\ *c*\n") = some (L "<p><strong>a*b</strong> \\ <em>c</em></p>\n") := by
+  have := C06_paragraph_html_is_spec_esc_partial {} 0 (L "**a\\*b** \\\\ *c*") (by decide +kernel) (by decide +kernel)
+    (by decide +kernel) (by decide +kernel) (by decide +kernel)
+  rw [show (0 + 14 = 14) from rfl] at this
+  rw [show L "**a\\*b** \\\\ *c*\n" = L "**a\\*b** \\\\ *c*" ++ ['\n'] from by decide, this]
+  decide +kernel
+example : Config.renderHtml {} 14 (L "**a\\*b** \\\\ *c*\n") = some (L "<p><strong>a*b</strong> \\ <em>c</em></p>\n") := by
   decide +kernel
 
 /-! ### why `hnl` and `htl` were added (`~~` and newlines are inside `plain`)
